@@ -363,137 +363,7 @@ Proof.
 Qed.
 
 (* ================================================================================================ *)
-(** * 3. find_min_max_addresses: the stack walk equals the structural recursion *)
-
-Definition visit (filter : object -> bool) (S : Z) (o : object) (acc : Z * Z) : Z * Z :=
-  if filter o then
-    match object_address o with
-    | None => acc
-    | Some a =>
-        let c0 := S + a in
-        let cm := c0 + Z.max (rep_count (object_repeat o) - 1) 0 * rep_stride (object_repeat o) in
-        (Z.min (Z.min (fst acc) c0) cm, Z.max (Z.max (snd acc) c0) cm)
-    end
-  else acc.
-
-(* the natural recursion: [S] = sum of the enclosing blocks' offsets *)
-Fixpoint mm_struct (filter : object -> bool) (S : Z) (o : object) (acc : Z * Z) {struct o} : Z * Z :=
-  let acc1 := visit filter S o acc in
-  match o with
-  | OBlock _ _ off _ objs =>
-      (fix go (l : list object) (a : Z * Z) : Z * Z :=
-         match l with [] => a | x :: t => go t (mm_struct filter (S + off) x a) end) objs acc1
-  | _ => acc1
-  end.
-
-Definition mm_struct_list (filter : object -> bool) (S : Z) (objs : list object) (acc : Z * Z) : Z * Z :=
-  fold_left (fun a x => mm_struct filter S x a) objs acc.
-
-Lemma mm_struct_block filter S c n off rep objs acc :
-  mm_struct filter S (OBlock c n off rep objs) acc =
-  mm_struct_list filter (S + off) objs (visit filter S (OBlock c n off rep objs) acc).
-Proof.
-  cbn [mm_struct]. unfold mm_struct_list. generalize (visit filter S (OBlock c n off rep objs) acc).
-  induction objs as [|x t IH]; intros a; cbn; [reflexivity|apply IH].
-Qed.
-
-Definition filter_blocks (filter : object -> bool) : Prop :=
-  forall c n off rep objs, filter (OBlock c n off rep objs) = true.
-
-Definition proj (st : mm_state) : Z * Z := (mm_min st, mm_max st).
-
-Definition at_depth (d : nat) (S : list Z) (st : mm_state) : Prop :=
-  exists extra, mm_offsets st = (extra ++ S)%list /\ mm_last_depth st = (d + List.length extra)%nat.
-
-Lemma mm_pop_spec : forall k st extra S d,
-  mm_offsets st = (extra ++ S)%list -> List.length extra = k -> mm_last_depth st = (d + k)%nat ->
-  mm_offsets (mm_pop k st) = S /\ mm_last_depth (mm_pop k st) = d /\ proj (mm_pop k st) = proj st.
-Proof.
-  induction k as [|k IH]; intros st extra S d Ho Hl Hd.
-  - destruct extra; [|discriminate]. cbn in *. repeat split; auto. lia.
-  - destruct extra as [|x extra]; [discriminate|]. cbn [mm_pop]. rewrite Ho. cbn [app tl].
-    cbn in Hl.
-    destruct (IH {| mm_min := mm_min st; mm_max := mm_max st; mm_last_depth := Nat.pred (mm_last_depth st);
-                    mm_offsets := (extra ++ S)%list; mm_ok := mm_ok st |} extra S d) as (H1 & H2 & H3);
-      [reflexivity|lia|cbn; lia|].
-    repeat split; [exact H1|exact H2|exact H3].
-Qed.
-
-Lemma mm_step_spec filter d S st o :
-  filter_blocks filter -> at_depth d S st ->
-  let st' := mm_step filter st (o, d) in
-  proj st' = visit filter (zsum S) o (proj st) /\
-  match o with
-  | OBlock _ _ off _ _ => mm_offsets st' = off :: S /\ mm_last_depth st' = Datatypes.S d
-  | _ => mm_offsets st' = S /\ mm_last_depth st' = d
-  end.
-Proof.
-  intros Hfb (extra & Ho & Hd). cbn zeta. unfold mm_step.
-  replace (mm_last_depth st - d)%nat with (List.length extra) by lia.
-  destruct (mm_pop_spec (List.length extra) st extra S d Ho eq_refl Hd) as (P1 & P2 & P3).
-  set (st1 := mm_pop (List.length extra) st) in *.
-  unfold visit. destruct (filter o) eqn:Ef; cbn [negb].
-  - destruct (object_address o) as [a|] eqn:Ea.
-    + destruct o; cbn; rewrite ?P1, ?P2; unfold proj in *; inversion P3; split; auto; try (rewrite H0, H1; reflexivity).
-    + destruct o; cbn; rewrite ?P1, ?P2; split; auto; discriminate.
-  - destruct o; try (split; [exact P3|split; assumption]).
-    rewrite Hfb in Ef. discriminate.
-Qed.
-
-Lemma walk_obj filter (Hfb : filter_blocks filter) o : forall d S st,
-  at_depth d S st ->
-  at_depth d S (fold_left (mm_step filter) (flatten_depth d o) st) /\
-  proj (fold_left (mm_step filter) (flatten_depth d o) st) = mm_struct filter (zsum S) o (proj st).
-Proof.
-  induction o using object_ind'; intros d S st Hat;
-    try (match goal with |- context [flatten_depth d ?o] =>
-           destruct (mm_step_spec filter d S st o Hfb Hat) as (Hp & Hrest) end;
-         cbn [flatten_depth fold_left mm_struct]; cbn beta iota zeta in Hrest;
-         destruct Hrest as (Ho & Hd);
-         split; [exists []; split; [exact Ho|rewrite Hd; cbn; lia]|exact Hp]).
-  rename H into IHch.
-  rewrite mm_struct_block.
-  cbn [flatten_depth fold_left].
-  destruct (mm_step_spec filter d S st (OBlock c n off rep objs) Hfb Hat) as (Hp & Ho & Hd).
-  set (st1 := mm_step filter st (OBlock c n off rep objs, d)) in *. clearbody st1.
-  rewrite <- Hp.
-  assert (Hat1 : at_depth (Datatypes.S d) (off :: S) st1) by (exists []; split; [exact Ho|rewrite Hd; cbn; lia]).
-  replace (zsum S + off) with (zsum (off :: S)) by (unfold zsum; cbn [fold_right]; lia).
-  clear Hp Ho Hd Hat st.
-  assert (Hlist : at_depth (Datatypes.S d) (off :: S) (fold_left (mm_step filter) (flat_map (flatten_depth (Datatypes.S d)) objs) st1) /\
-                  proj (fold_left (mm_step filter) (flat_map (flatten_depth (Datatypes.S d)) objs) st1) =
-                  mm_struct_list filter (zsum (off :: S)) objs (proj st1)).
-  { revert st1 Hat1. induction IHch as [|x t Hx Ht IHt]; intros st1 Hat1; cbn [flat_map].
-    - split; [assumption|reflexivity].
-    - rewrite fold_left_app. destruct (Hx (Datatypes.S d) (off :: S) st1 Hat1) as (A1 & A2).
-      destruct (IHt _ A1) as (B1 & B2). split; [assumption|].
-      rewrite B2, A2. reflexivity. }
-  destruct Hlist as ((extra & E1 & E2) & Hpr). split; [|exact Hpr].
-  exists (extra ++ [off])%list. rewrite <- app_assoc. cbn. split; [assumption|]. rewrite app_length. cbn. lia.
-Qed.
-
-Lemma walk_struct filter objs :
-  filter_blocks filter ->
-  find_min_max_addresses filter objs = mm_struct_list filter 0 objs (0, 0).
-Proof.
-  intros Hfb. unfold find_min_max_addresses, mm_walk, preorder.
-  assert (H : forall st, at_depth 0 [] st ->
-            at_depth 0 [] (fold_left (mm_step filter) (flat_map (flatten_depth 0) objs) st) /\
-            proj (fold_left (mm_step filter) (flat_map (flatten_depth 0) objs) st) = mm_struct_list filter 0 objs (proj st)).
-  { induction objs as [|x t IH]; intros st Hat; cbn [flat_map].
-    - split; [assumption|reflexivity].
-    - rewrite fold_left_app. destruct (walk_obj filter Hfb x 0%nat [] st Hat) as (A1 & A2).
-      destruct (IH _ A1) as (B1 & B2). split; [assumption|]. rewrite B2, A2. reflexivity. }
-  destruct (H mm_init) as (_ & Hp); [exists []; split; reflexivity|]. exact Hp.
-Qed.
-
-Lemma filter_all_blocks : filter_blocks filter_all.
-Proof. intros c n off rep objs; reflexivity. Qed.
-Lemma filter_kind_blocks k : filter_blocks (filter_kind k).
-Proof. intros c n off rep objs; destruct k; reflexivity. Qed.
-
-(* ================================================================================================ *)
-(** * 4. Every untagged instance lies between the walk's minimum and maximum *)
+(** * 3. Intervals *)
 
 Definition within (acc : Z * Z) (z : Z) : Prop := fst acc <= z <= snd acc.
 Definition le_acc (a b : Z * Z) : Prop := fst b <= fst a /\ snd a <= snd b.
@@ -504,46 +374,11 @@ Lemma le_acc_trans a b c : le_acc a b -> le_acc b c -> le_acc a c.
 Proof. unfold le_acc; lia. Qed.
 Lemma within_mono a b z : within a z -> le_acc a b -> within b z.
 Proof. unfold within, le_acc; lia. Qed.
+Lemma Forall_within_mono a b l : Forall (within a) l -> le_acc a b -> Forall (within b) l.
+Proof. intros H Hle. eapply Forall_impl; [|exact H]. intros z Hz. eapply within_mono; eauto. Qed.
 
-Lemma visit_mono filter S o acc : le_acc acc (visit filter S o acc).
-Proof.
-  unfold visit. destruct (filter o); [|apply le_acc_refl].
-  destruct (object_address o); [|apply le_acc_refl]. unfold le_acc; cbn. lia.
-Qed.
-
-Lemma mm_struct_mono filter o : forall S acc, le_acc acc (mm_struct filter S o acc).
-Proof.
-  induction o using object_ind'; intros S acc; try (cbn [mm_struct]; apply visit_mono).
-  rewrite mm_struct_block. apply le_acc_trans with (visit filter S (OBlock c n off rep objs) acc); [apply visit_mono|].
-  generalize (visit filter S (OBlock c n off rep objs) acc). unfold mm_struct_list.
-  induction H as [|x t Hx Ht IH]; intros a; cbn [fold_left]; [apply le_acc_refl|].
-  apply le_acc_trans with (mm_struct filter (S + off) x a); [apply Hx|apply IH].
-Qed.
-
-Lemma mm_struct_list_mono filter S objs acc : le_acc acc (mm_struct_list filter S objs acc).
-Proof.
-  unfold mm_struct_list. revert acc. induction objs as [|x t IH]; intros acc; cbn [fold_left]; [apply le_acc_refl|].
-  apply le_acc_trans with (mm_struct filter S x acc); [apply mm_struct_mono|apply IH].
-Qed.
-
-Lemma visit_within filter S o acc a k :
-  filter o = true -> object_address o = Some a -> 0 <= k < rep_count (object_repeat o) ->
-  within (visit filter S o acc) (S + a + k * rep_stride (object_repeat o)).
-Proof.
-  intros Hf Ha Hk. unfold visit. rewrite Hf, Ha. unfold within. cbn [fst snd].
-  set (c := rep_count (object_repeat o)) in *. set (s := rep_stride (object_repeat o)) in *.
-  replace (Z.max (c - 1) 0) with (c - 1) by lia.
-  clearbody c s.
-  assert (Hl : (0 <= k * s <= (c - 1) * s) \/ ((c - 1) * s <= k * s <= 0)).
-  { destruct (Z_le_gt_dec 0 s); [left|right]; nia. }
-  lia.
-Qed.
-
-Lemma visit_within0 filter S o acc a :
-  filter o = true -> object_address o = Some a -> within (visit filter S o acc) (S + a).
-Proof.
-  intros Hf Ha. unfold visit. rewrite Hf, Ha. unfold within. cbn [fst snd]. lia.
-Qed.
+(* ================================================================================================ *)
+(** * 4. Tags and the shape of [instances_objs] *)
 
 (* tags *)
 Definition clean (ts : list tag) : Prop := forall t, In t ts -> t = TOwnFlag.
@@ -675,151 +510,604 @@ Proof. unfold zsum. induction a as [|x t IH]; cbn [app fold_right]; [reflexivity
 Lemma addr_sem_app p s : addr_sem (p ++ [s]) = addr_sem p + step_sem s.
 Proof. unfold addr_sem. rewrite map_app, zsum_app. unfold zsum. cbn [map fold_right]. lia. Qed.
 
+(* ================================================================================================ *)
+(** * 5. find_min_max_addresses (the repaired walk) bounds every instance *)
+
+Definition filter_blocks (filter : object -> bool) : Prop :=
+  forall c n off rep objs, filter (OBlock c n off rep objs) = true.
+Definition filter_block_refs (filter : object -> bool) : Prop :=
+  forall c n t off rep, filter (ORef c n (OvBlock t off rep)) = true.
+
 (* a filter at least as permissive as the walk of the instance's kind *)
 Definition filter_covers (filter : object -> bool) (k : akind) : Prop :=
   forall o, filter_kind k o = true -> filter o = true.
 
-Lemma inst_bounded dev filter (Hfb : filter_blocks filter) : forall fuel objs bl path tags l i,
-  instances_objs fuel dev objs bl path tags = Ok l -> In i l -> clean (i_tags i) ->
-  filter_covers filter (i_kind i) ->
-  forall acc, within (mm_struct_list filter (addr_sem path) objs acc) (i_addr i).
-Proof.
-  induction fuel as [|f IH]; intros objs bl path tags l i H Hi Hcl Hcov; [discriminate|].
-  rewrite instances_objs_S in H.
-  (* one object *)
-  assert (Hone : forall o a acc, inst_one (instances_objs f dev) dev bl path tags o = Ok a -> In i a ->
-                   within (mm_struct filter (addr_sem path) o acc) (i_addr i)).
-  { intros o a acc Ho Hia.
-    assert (Hleaf : forall lf, In i (leaf_instances bl path tags lf) ->
-              filter o = true -> object_address o = Some (lf_addr lf) ->
-              (rep_count (object_repeat o) = rep_count (lf_rep lf) /\ rep_stride (object_repeat o) = rep_stride (lf_rep lf)) ->
-              within (visit filter (addr_sem path) o acc) (i_addr i)).
-    { intros lf Hin Hf Ha (Hc & Hs). apply leaf_instances_in in Hin. destruct Hin as (k & Hk & ->).
-      unfold i_addr. cbn [i_path]. rewrite addr_sem_app. unfold step_sem. cbn [s_addr s_idx s_rep].
-      rewrite <- Hs, Z.add_assoc. apply visit_within; auto. rewrite Hc. assumption. }
-    destruct o as [c n off rep ch|rg|cm|bf|c n ov]; cbn [inst_one] in Ho.
-    - (* block *)
-      destruct (block_inst_in _ _ _ _ _ _ _ _ _ _ Ho Hia) as (k & r1 & Hk & Hrec & Hi1).
-      destruct (tags_prefix _ _ _ _ _ _ _ _ Hrec Hi1) as (rest & Ht).
-      assert (Hrep : rep = None).
-      { pose proof Hcl as Hc. rewrite Ht in Hc. apply clean_app in Hc. destruct Hc as [Hc _].
-        apply clean_app in Hc. destruct Hc as [_ Hc]. apply clean_opt_tag in Hc; [|discriminate].
-        destruct rep; [discriminate|reflexivity]. }
-      subst rep. assert (k = 0) by (unfold rep_count in Hk; lia). subst k.
-      rewrite mm_struct_block.
-      pose proof (IH _ _ _ _ _ _ Hrec Hi1 Hcl Hcov) as Hb. rewrite addr_sem_app in Hb.
-      unfold step_sem in Hb. cbn [s_addr s_idx s_rep] in Hb. unfold rep_stride in Hb.
-      replace (addr_sem path + (off + 0 * 0)) with (addr_sem path + off) in Hb by lia. apply Hb.
-    - injection Ho as <-. eapply Hleaf; [exact Hia| | reflexivity | split; reflexivity].
-      apply leaf_instances_in in Hia. destruct Hia as (k & _ & ->). apply Hcov. reflexivity.
-    - injection Ho as <-. eapply Hleaf; [exact Hia| | reflexivity | split; reflexivity].
-      apply leaf_instances_in in Hia. destruct Hia as (k & _ & ->). apply Hcov. reflexivity.
-    - injection Ho as <-. eapply Hleaf; [exact Hia| | reflexivity | split; reflexivity].
-      apply leaf_instances_in in Hia. destruct Hia as (k & _ & ->). apply Hcov. reflexivity.
-    - destruct ov as [tgt off rep|tgt acc0 addr allow reset rep|tgt addr allow rep];
-        (destruct (search_object _ dev) as [t|]; [|discriminate]); destruct t; try discriminate.
-      + (* block ref: tagged *)
-        destruct (block_inst_in _ _ _ _ _ _ _ _ _ _ Ho Hia) as (k & r1 & Hk & Hrec & Hi1).
-        destruct (tags_prefix _ _ _ _ _ _ _ _ Hrec Hi1) as (rest & Ht).
-        exfalso. rewrite Ht in Hcl. apply clean_app in Hcl. destruct Hcl as [Hc _].
-        apply clean_app in Hc. destruct Hc as [Hc _]. apply clean_app in Hc. destruct Hc as [_ Hc].
-        specialize (Hc TBlockRef (or_introl eq_refl)). discriminate.
-      + injection Ho as <-. pose proof Hia as Hia'. apply leaf_instances_in in Hia'. destruct Hia' as (k & _ & Hi').
-        assert (Hc : clean (lf_tags {| lf_kind := KRegister; lf_name := n; lf_addr := or_else addr (rg_address r);
-                   lf_rep := or_else_opt rep (rg_repeat r); lf_allow := rg_allow_address_overlap r || allow;
-                   lf_tags := opt_tag (is_none addr) TRefNoAddr
-                              ++ opt_tag (is_none rep && rep_is (rg_repeat r)) TRefKeepsRepeat
-                              ++ opt_tag allow TOwnFlag |})).
-        { rewrite Hi' in Hcl. cbn [i_tags] in Hcl. apply clean_app in Hcl. apply Hcl. }
-        cbn [lf_tags] in Hc. apply clean_app in Hc. destruct Hc as [Hc1 Hc]. apply clean_app in Hc. destruct Hc as [Hc2 _].
-        apply clean_opt_tag in Hc1; [|discriminate]. apply clean_opt_tag in Hc2; [|discriminate].
-        destruct addr as [a0|]; [|discriminate].
-        eapply Hleaf; [exact Hia| | reflexivity | ].
-        * apply Hcov. rewrite Hi'. reflexivity.
-        * cbn [lf_rep object_repeat]. destruct rep as [rp|]; [split; reflexivity|].
-          cbn in Hc2. destruct (rg_repeat r); [discriminate|]. split; reflexivity.
-      + injection Ho as <-. pose proof Hia as Hia'. apply leaf_instances_in in Hia'. destruct Hia' as (k & _ & Hi').
-        assert (Hc : clean (lf_tags {| lf_kind := KCommand; lf_name := n; lf_addr := or_else addr (cm_address c0);
-                   lf_rep := or_else_opt rep (cm_repeat c0); lf_allow := cm_allow_address_overlap c0 || allow;
-                   lf_tags := opt_tag (is_none addr) TRefNoAddr
-                              ++ opt_tag (is_none rep && rep_is (cm_repeat c0)) TRefKeepsRepeat
-                              ++ opt_tag allow TOwnFlag |})).
-        { rewrite Hi' in Hcl. cbn [i_tags] in Hcl. apply clean_app in Hcl. apply Hcl. }
-        cbn [lf_tags] in Hc. apply clean_app in Hc. destruct Hc as [Hc1 Hc]. apply clean_app in Hc. destruct Hc as [Hc2 _].
-        apply clean_opt_tag in Hc1; [|discriminate]. apply clean_opt_tag in Hc2; [|discriminate].
-        destruct addr as [a0|]; [|discriminate].
-        eapply Hleaf; [exact Hia| | reflexivity | ].
-        * apply Hcov. rewrite Hi'. reflexivity.
-        * cbn [lf_rep object_repeat]. destruct rep as [rp|]; [split; reflexivity|].
-          cbn in Hc2. destruct (cm_repeat c0); [discriminate|]. split; reflexivity. }
-  (* the list *)
-  revert l H Hi. induction objs as [|o t IHt]; intros l H Hi acc.
-  - cbn in H. injection H as <-. destruct Hi.
-  - cbn [map] in H. apply ocat_cons_ok in H. destruct H as (a & b & Ha & Hb & ->).
-    unfold mm_struct_list. cbn [fold_left]. apply in_app_or in Hi. destruct Hi as [Hi|Hi].
-    + eapply within_mono; [eapply Hone; eauto|]. apply (mm_struct_list_mono filter (addr_sem path) t).
-    + apply (IHt b Hb Hi).
-Qed.
-
-(* ================================================================================================ *)
-(** * 5. C13: accepted ==> every untagged instance fits its address type *)
-
-Lemma addr_sem_nil : addr_sem [] = 0.
-Proof. reflexivity. Qed.
-
+Lemma filter_all_blocks : filter_blocks filter_all.
+Proof. intros c n off rep objs; reflexivity. Qed.
+Lemma filter_all_block_refs : filter_block_refs filter_all.
+Proof. intros c n t off rep; reflexivity. Qed.
+Lemma filter_kind_blocks k : filter_blocks (filter_kind k).
+Proof. intros c n off rep objs; destruct k; reflexivity. Qed.
 Lemma filter_covers_kind k : filter_covers (filter_kind k) k.
 Proof. intros o H; exact H. Qed.
 Lemma filter_covers_all k : filter_covers filter_all k.
 Proof. intros o H; reflexivity. Qed.
 
-(* the min/max walk of the instance's kind bounds every untagged instance, in ANY tree *)
-Theorem untagged_bounded objs fuel l i :
-  instances fuel objs = Ok l -> In i l -> untagged i = true ->
-  fst (find_min_max_addresses (filter_kind (i_kind i)) objs) <= i_addr i
-    <= snd (find_min_max_addresses (filter_kind (i_kind i)) objs).
+Lemma walk_objs_S f dev filter objs lo hi acc :
+  walk_objs (S f) dev filter objs lo hi acc = walk_list (walk_one (walk_objs f dev filter) dev filter lo hi) objs acc.
+Proof. reflexivity. Qed.
+
+Lemma widen_mono acc mn mx : le_acc acc (widen acc mn mx).
+Proof. unfold le_acc, widen; cbn [fst snd]; lia. Qed.
+
+Lemma widen_within acc mn mx z : mn <= z <= mx -> within (widen acc mn mx) z.
+Proof. unfold within, widen; cbn [fst snd]; lia. Qed.
+
+(* the own interval of an object: [lo, hi] + address + [min(0, last), max(0, last)] *)
+Definition own_lo (lo a : Z) (rep : option repeat) : Z := lo + a + Z.min (Z.max (rep_count rep - 1) 0 * rep_stride rep) 0.
+Definition own_hi (hi a : Z) (rep : option repeat) : Z := hi + a + Z.max (Z.max (rep_count rep - 1) 0 * rep_stride rep) 0.
+
+(* what a successful visit of one object did *)
+Lemma walk_one_inv rec dev filter lo hi o acc r :
+  walk_one rec dev filter lo hi o acc = Ok r ->
+  match eff_address o (ref_target dev o) with
+  | None => r = acc
+  | Some a =>
+      let rep := eff_repeat o (ref_target dev o) in
+      let acc1 := if filter o then widen acc (own_lo lo a rep) (own_hi hi a rep) else acc in
+      match walk_children o (ref_target dev o) with
+      | None => r = acc1
+      | Some ch => rec ch (own_lo lo a rep) (own_hi hi a rep) acc1 = Ok r
+      end
+  end.
 Proof.
-  intros H Hi Hu. rewrite walk_struct by apply filter_kind_blocks.
-  apply untagged_clean in Hu.
-  exact (inst_bounded objs _ (filter_kind_blocks _) fuel objs [] [] [] l i H Hi Hu (filter_covers_kind _) (0, 0)).
+  unfold walk_one, own_lo, own_hi. destruct (eff_address o (ref_target dev o)) as [a|]; [|intros H; injection H as <-; reflexivity].
+  cbn zeta. destruct (negb _); [discriminate|].
+  destruct (walk_children o (ref_target dev o)) as [ch|]; [auto|]. intros H; injection H as <-; reflexivity.
 Qed.
 
-Theorem untagged_bounded_all objs fuel l i :
-  instances fuel objs = Ok l -> In i l -> untagged i = true ->
-  fst (find_min_max_addresses filter_all objs) <= i_addr i <= snd (find_min_max_addresses filter_all objs).
+Definition rec_mono (rec : list object -> Z -> Z -> Z * Z -> outcome (Z * Z)) : Prop :=
+  forall ch lo hi acc r, rec ch lo hi acc = Ok r -> le_acc acc r.
+
+Lemma walk_one_mono rec dev filter lo hi o acc r :
+  rec_mono rec -> walk_one rec dev filter lo hi o acc = Ok r -> le_acc acc r.
 Proof.
-  intros H Hi Hu. rewrite walk_struct by apply filter_all_blocks.
-  apply untagged_clean in Hu.
-  exact (inst_bounded objs _ filter_all_blocks fuel objs [] [] [] l i H Hi Hu (filter_covers_all _) (0, 0)).
+  intros Hrec H. apply walk_one_inv in H.
+  destruct (eff_address o (ref_target dev o)) as [a|]; [|subst; apply le_acc_refl].
+  cbn zeta in H.
+  assert (H1 : le_acc acc (if filter o then widen acc (own_lo lo a (eff_repeat o (ref_target dev o)))
+                                                  (own_hi hi a (eff_repeat o (ref_target dev o))) else acc)).
+  { destruct (filter o); [apply widen_mono|apply le_acc_refl]. }
+  destruct (walk_children o (ref_target dev o)) as [ch|]; [|subst; exact H1].
+  eapply le_acc_trans; [exact H1|]. eapply Hrec; exact H.
 Qed.
 
-Lemma big_enough_kind_none d k t :
-  address_type_of (d_config d) k = Some t -> big_enough_kind d k = None ->
-  integer_min t <= fst (find_min_max_addresses (filter_kind k) (d_objects d)) /\
-  snd (find_min_max_addresses (filter_kind k) (d_objects d)) <= integer_max t.
+Lemma walk_list_mono one :
+  (forall o acc r, one o acc = Ok r -> le_acc acc r) ->
+  forall l acc r, walk_list one l acc = Ok r -> le_acc acc r.
+Proof.
+  intros Hone. induction l as [|o t IH]; intros acc r H; cbn [walk_list] in H.
+  - injection H as <-. apply le_acc_refl.
+  - destruct (one o acc) as [a|k] eqn:E; [|discriminate].
+    eapply le_acc_trans; [eapply Hone; exact E|apply IH; exact H].
+Qed.
+
+Lemma walk_objs_mono dev filter : forall f, rec_mono (walk_objs f dev filter).
+Proof.
+  induction f as [|f IH]; intros ch lo hi acc r H; [discriminate|].
+  rewrite walk_objs_S in H. eapply walk_list_mono; [|exact H].
+  intros o a r0 Ho. eapply walk_one_mono; [exact IH|exact Ho].
+Qed.
+
+(* more fuel never changes a result *)
+Lemma walk_one_ext rec rec' dev filter lo hi o acc r :
+  (forall ch l h a r0, rec ch l h a = Ok r0 -> rec' ch l h a = Ok r0) ->
+  walk_one rec dev filter lo hi o acc = Ok r -> walk_one rec' dev filter lo hi o acc = Ok r.
+Proof.
+  intros Hext. unfold walk_one. destruct (eff_address o (ref_target dev o)); [|auto].
+  cbn zeta. destruct (negb _); [discriminate|].
+  destruct (walk_children o (ref_target dev o)); [apply Hext|auto].
+Qed.
+
+Lemma walk_objs_fuel_S dev filter : forall f objs lo hi acc r,
+  walk_objs f dev filter objs lo hi acc = Ok r -> walk_objs (S f) dev filter objs lo hi acc = Ok r.
+Proof.
+  induction f as [|f IH]; intros objs lo hi acc r H; [discriminate|].
+  rewrite walk_objs_S in *. revert acc H. induction objs as [|o t IHt]; intros acc H; cbn [walk_list] in *; [exact H|].
+  destruct (walk_one (walk_objs f dev filter) dev filter lo hi o acc) as [a|k] eqn:E; [|discriminate].
+  rewrite (walk_one_ext _ (walk_objs (S f) dev filter) _ _ _ _ _ _ _ IH E). apply IHt. exact H.
+Qed.
+
+Lemma walk_objs_fuel_le dev filter f f' objs lo hi acc r :
+  (f <= f')%nat -> walk_objs f dev filter objs lo hi acc = Ok r -> walk_objs f' dev filter objs lo hi acc = Ok r.
+Proof. intros Hle H. induction Hle as [|m Hle IH]; [exact H|]. apply walk_objs_fuel_S. exact IH. Qed.
+
+Lemma internal_type_at_fuel_le f f' d it :
+  (f <= f')%nat -> internal_type_at f d = Ok it -> internal_type_at f' d = Ok it.
+Proof.
+  intros Hle. unfold internal_type_at, find_min_max_addresses.
+  destruct (walk_objs f (d_objects d) filter_all (d_objects d) 0 0 (0, 0)) as [[mn mx]|k] eqn:E; [|discriminate].
+  rewrite (walk_objs_fuel_le _ _ _ _ _ _ _ _ _ Hle E). auto.
+Qed.
+
+(* the walk's result contains 0 *)
+Lemma walk_contains_zero fuel filter objs mn mx :
+  find_min_max_addresses fuel filter objs = Ok (mn, mx) -> mn <= 0 <= mx.
+Proof.
+  unfold find_min_max_addresses. intros H. apply walk_objs_mono in H. unfold le_acc in H. cbn [fst snd] in H. lia.
+Qed.
+
+(* an instance address of an object lies in the object's own interval *)
+Lemma own_interval lo hi base a rep k :
+  lo <= base <= hi -> 0 <= k < rep_count rep ->
+  own_lo lo a rep <= base + (a + k * rep_stride rep) <= own_hi hi a rep.
+Proof.
+  intros Hb Hk. unfold own_lo, own_hi. set (c := rep_count rep) in *. set (s := rep_stride rep). clearbody c s.
+  replace (Z.max (c - 1) 0) with (c - 1) by lia.
+  assert (Hl : (0 <= k * s <= (c - 1) * s) \/ ((c - 1) * s <= k * s <= 0)).
+  { destruct (Z_le_gt_dec 0 s); [left|right]; nia. }
+  lia.
+Qed.
+
+(* so does its index-0 address, whatever the count *)
+Lemma own_interval0 lo hi base a rep :
+  lo <= base <= hi -> own_lo lo a rep <= base + a <= own_hi hi a rep.
+Proof. intros Hb. unfold own_lo, own_hi. lia. Qed.
+
+Definition idx_ok (s : step) : Prop := 0 <= s_idx s < rep_count (s_rep s).
+
+(* THE KEY LEMMA.  Whatever [lo, hi] contains the address of the enclosing block instance, a successful walk of a
+   list of objects ends with a range that contains the address of every instance the spec enumerates below that
+   list whose kind the filter lets through — and, for a filter that lets block refs through too (|_| true), every
+   intermediate value on the way: base + ADDR and the block instance address of every enclosing step. *)
+Lemma walk_covers dev filter (Hfb : filter_blocks filter) : forall fi objs bl path tags l i,
+  instances_objs fi dev objs bl path tags = Ok l -> In i l ->
+  filter_covers filter (i_kind i) ->
+  forall fw lo hi acc r,
+    lo <= addr_sem path <= hi ->
+    walk_objs fw dev filter objs lo hi acc = Ok r ->
+    exists rest, i_path i = path ++ rest /\ Forall idx_ok rest /\
+      within r (i_addr i) /\
+      (filter_block_refs filter -> Forall (within r) (checkpoints (addr_sem path) rest)).
+Proof.
+  induction fi as [|f IH]; intros objs bl path tags l i H Hi Hcov fw lo hi acc r Hb Hw; [discriminate|].
+  destruct fw as [|fw]; [discriminate|].
+  rewrite instances_objs_S in H. rewrite walk_objs_S in Hw.
+  set (base := addr_sem path) in *.
+  (* one object *)
+  assert (Hone : forall o a acc0 r0, inst_one (instances_objs f dev) dev bl path tags o = Ok a -> In i a ->
+                   walk_one (walk_objs fw dev filter) dev filter lo hi o acc0 = Ok r0 ->
+                   exists rest, i_path i = path ++ rest /\ Forall idx_ok rest /\
+                     within r0 (i_addr i) /\
+                     (filter_block_refs filter -> Forall (within r0) (checkpoints base rest))).
+  { intros o a acc0 r0 Ho Hia Hwo. apply walk_one_inv in Hwo.
+    (* a leaf of the spec: the walk sees the same address and repeat, nothing below *)
+    assert (Hleaf : forall lf, In i (leaf_instances bl path tags lf) ->
+              filter o = true ->
+              eff_address o (ref_target dev o) = Some (lf_addr lf) ->
+              eff_repeat o (ref_target dev o) = lf_rep lf ->
+              walk_children o (ref_target dev o) = None ->
+              exists rest, i_path i = path ++ rest /\ Forall idx_ok rest /\
+                within r0 (i_addr i) /\
+                (filter_block_refs filter -> Forall (within r0) (checkpoints base rest))).
+    { intros lf Hin Hf Ha Hr Hc. rewrite Ha, Hc, Hr, Hf in Hwo. cbn zeta in Hwo. subst r0.
+      apply leaf_instances_in in Hin. destruct Hin as (k & Hk & ->).
+      eexists. split; [reflexivity|]. split; [constructor; [exact Hk|constructor]|].
+      assert (Hfin : within (widen acc0 (own_lo lo (lf_addr lf) (lf_rep lf)) (own_hi hi (lf_addr lf) (lf_rep lf)))
+                            (base + (lf_addr lf + k * rep_stride (lf_rep lf)))).
+      { apply widen_within. apply own_interval; assumption. }
+      split.
+      - unfold i_addr. cbn [i_path]. rewrite addr_sem_app. unfold step_sem. cbn [s_addr s_idx s_rep]. exact Hfin.
+      - intros _. cbn [checkpoints]. unfold step_sem. cbn [s_addr s_idx s_rep].
+        constructor; [apply widen_within; apply own_interval0; assumption|]. constructor; [exact Hfin|constructor]. }
+    (* a block of the spec (a block, or a block ref expanded at its place) *)
+    assert (Hblock : forall name off rep ch tg,
+              block_inst (instances_objs f dev) bl path name off rep ch tg = Ok a ->
+              eff_address o (ref_target dev o) = Some off ->
+              eff_repeat o (ref_target dev o) = rep ->
+              walk_children o (ref_target dev o) = Some ch ->
+              (filter_block_refs filter -> filter o = true) ->
+              exists rest, i_path i = path ++ rest /\ Forall idx_ok rest /\
+                within r0 (i_addr i) /\
+                (filter_block_refs filter -> Forall (within r0) (checkpoints base rest))).
+    { intros name off rep ch tg Hbi Ha Hr Hc Hf. rewrite Ha, Hc, Hr in Hwo. cbn zeta in Hwo.
+      destruct (block_inst_in _ _ _ _ _ _ _ _ _ _ Hbi Hia) as (k & r1 & Hk & Hrec & Hi1).
+      set (s := {| s_addr := off; s_rep := rep; s_idx := k |}) in *.
+      assert (Hs : own_lo lo off rep <= addr_sem (path ++ [s]) <= own_hi hi off rep).
+      { rewrite addr_sem_app. unfold step_sem, s. cbn [s_addr s_idx s_rep]. apply own_interval; assumption. }
+      destruct (IH _ _ _ _ _ _ Hrec Hi1 Hcov _ _ _ _ _ Hs Hwo) as (rest & Hp & Hidx & Hfin & Hcp).
+      exists (s :: rest). split; [rewrite Hp, <- app_assoc; reflexivity|].
+      split; [constructor; [exact Hk|exact Hidx]|]. split; [exact Hfin|].
+      intros Hbr. specialize (Hcp Hbr). rewrite addr_sem_app in Hcp. fold base in Hcp.
+      cbn [checkpoints].
+      assert (Hmono : le_acc (widen acc0 (own_lo lo off rep) (own_hi hi off rep)) r0).
+      { rewrite (Hf Hbr) in Hwo. eapply walk_objs_mono; exact Hwo. }
+      constructor.
+      - eapply within_mono; [|exact Hmono]. apply widen_within. unfold s; cbn [s_addr]. apply own_interval0; assumption.
+      - constructor; [|exact Hcp].
+        eapply within_mono; [|exact Hmono]. apply widen_within. unfold step_sem, s. cbn [s_addr s_idx s_rep].
+        apply own_interval; assumption. }
+    destruct o as [c n off rep ch|rg|cm|bf|c n ov]; cbn [inst_one] in Ho.
+    - eapply Hblock; [exact Ho|reflexivity|unfold eff_repeat, object_repeat; destruct rep; reflexivity|reflexivity|]. intros _. apply Hfb.
+    - injection Ho as <-. eapply Hleaf; [exact Hia| |reflexivity|unfold eff_repeat, object_repeat, ref_target; destruct (rg_repeat rg); reflexivity|reflexivity].
+      apply leaf_instances_in in Hia. destruct Hia as (k & _ & ->). apply Hcov. reflexivity.
+    - injection Ho as <-. eapply Hleaf; [exact Hia| |reflexivity|unfold eff_repeat, object_repeat, ref_target; destruct (cm_repeat cm); reflexivity|reflexivity].
+      apply leaf_instances_in in Hia. destruct Hia as (k & _ & ->). apply Hcov. reflexivity.
+    - injection Ho as <-. eapply Hleaf; [exact Hia| |reflexivity|reflexivity|reflexivity].
+      apply leaf_instances_in in Hia. destruct Hia as (k & _ & ->). apply Hcov. reflexivity.
+    - destruct ov as [tgt off rep|tgt acc1 addr allow reset rep|tgt addr allow rep];
+        (destruct (search_object tgt dev) as [t|] eqn:Es; [|discriminate]); destruct t; try discriminate.
+      + eapply Hblock; [exact Ho| | | |].
+        * cbn [ref_target override_target]. rewrite Es. destruct off; reflexivity.
+        * cbn [ref_target override_target]. rewrite Es. destruct rep; reflexivity.
+        * cbn [ref_target override_target]. rewrite Es. reflexivity.
+        * intros Hbr. apply Hbr.
+      + injection Ho as <-. eapply Hleaf; [exact Hia| | | |].
+        * apply leaf_instances_in in Hia. destruct Hia as (k & _ & ->). apply Hcov. reflexivity.
+        * cbn [ref_target override_target]. rewrite Es. destruct addr; reflexivity.
+        * cbn [ref_target override_target]. rewrite Es. destruct rep; reflexivity.
+        * cbn [ref_target override_target]. rewrite Es. reflexivity.
+      + injection Ho as <-. eapply Hleaf; [exact Hia| | | |].
+        * apply leaf_instances_in in Hia. destruct Hia as (k & _ & ->). apply Hcov. reflexivity.
+        * cbn [ref_target override_target]. rewrite Es. destruct addr; reflexivity.
+        * cbn [ref_target override_target]. rewrite Es. destruct rep; reflexivity.
+        * cbn [ref_target override_target]. rewrite Es. reflexivity. }
+  (* the list *)
+  clear Hb. revert l H Hi acc Hw. induction objs as [|o t IHt]; intros l H Hi acc Hw.
+  - cbn in H. injection H as <-. destruct Hi.
+  - cbn [map] in H. apply ocat_cons_ok in H. destruct H as (a & b & Ha & Hb & ->).
+    cbn [walk_list] in Hw. destruct (walk_one (walk_objs fw dev filter) dev filter lo hi o acc) as [a1|k] eqn:Eo; [|discriminate].
+    apply in_app_or in Hi. destruct Hi as [Hi|Hi].
+    + destruct (Hone o a acc a1 Ha Hi Eo) as (rest & Hp & Hidx & Hfin & Hcp).
+      assert (Hm : le_acc a1 r).
+      { eapply walk_list_mono; [|exact Hw]. intros o0 a0 r0 Ho0. eapply walk_one_mono; [apply walk_objs_mono|exact Ho0]. }
+      exists rest. split; [exact Hp|]. split; [exact Hidx|]. split; [eapply within_mono; eauto|].
+      intros Hbr. eapply Forall_within_mono; [apply Hcp; exact Hbr|exact Hm].
+    + apply (IHt b Hb Hi a1 Hw).
+Qed.
+
+Lemma addr_sem_nil : addr_sem [] = 0.
+Proof. reflexivity. Qed.
+
+(* the min/max walk of a kind bounds every instance of that kind: ANY tree, ANY construct *)
+Theorem walk_bounds_instances fuel fi objs k mn mx l i :
+  find_min_max_addresses fuel (filter_kind k) objs = Ok (mn, mx) ->
+  instances fi objs = Ok l -> In i l -> i_kind i = k -> mn <= i_addr i <= mx.
+Proof.
+  intros Hw H Hi Hk. subst k.
+  destruct (walk_covers objs _ (filter_kind_blocks _) fi objs [] [] [] l i H Hi (filter_covers_kind _)
+              fuel 0 0 (0, 0) (mn, mx)) as (rest & _ & _ & Hfin & _); [rewrite addr_sem_nil; lia|exact Hw|].
+  exact Hfin.
+Qed.
+
+(* the walk with `|_| true` bounds every value on the way to every instance *)
+Theorem walk_bounds_checkpoints fuel fi objs mn mx l i :
+  find_min_max_addresses fuel filter_all objs = Ok (mn, mx) ->
+  instances fi objs = Ok l -> In i l ->
+  Forall idx_ok (i_path i) /\ Forall (fun z => mn <= z <= mx) (checkpoints 0 (i_path i)).
+Proof.
+  intros Hw H Hi.
+  destruct (walk_covers objs _ filter_all_blocks fi objs [] [] [] l i H Hi (filter_covers_all _)
+              fuel 0 0 (0, 0) (mn, mx)) as (rest & Hp & Hidx & _ & Hcp); [rewrite addr_sem_nil; lia|exact Hw|].
+  cbn [app] in Hp. rewrite Hp. split; [exact Hidx|]. rewrite addr_sem_nil in Hcp. exact (Hcp filter_all_block_refs).
+Qed.
+
+(* the final address is the last checkpoint *)
+Lemma checkpoints_final : forall path base, path <> [] -> In (base + addr_sem path) (checkpoints base path).
+Proof.
+  induction path as [|s t IH]; intros base Hne; [congruence|].
+  cbn [checkpoints]. destruct t as [|s' t'].
+  - right. left. unfold addr_sem, zsum. cbn [map fold_right]. lia.
+  - right. right. replace (base + addr_sem (s :: s' :: t')) with (base + step_sem s + addr_sem (s' :: t')).
+    + apply IH. discriminate.
+    + unfold addr_sem, zsum. cbn [map fold_right]. lia.
+Qed.
+
+(* ---- the walk computes EXACTLY the minimum and the maximum of 0 and the [points] of its filter ---- *)
+
+Definition own_points (base a : Z) (rep : option repeat) : list Z :=
+  map (fun k => base + a + k * rep_stride rep) (zrange (Z.max (rep_count rep) 1)).
+
+Definition pts_one (rec : list object -> Z -> outcome (list Z)) (dev : list object) (filter : object -> bool)
+           (base : Z) (o : object) : outcome (list Z) :=
+  let tgt := ref_target dev o in
+  match eff_address o tgt with
+  | None => Ok []
+  | Some a =>
+      let own := own_points base a (eff_repeat o tgt) in
+      let listed := if filter o then own else [] in
+      match walk_children o tgt with
+      | None => Ok listed
+      | Some ch => match ocat (map (rec ch) own) with
+                   | Fail k => Fail k
+                   | Ok below => Ok (listed ++ below)
+                   end
+      end
+  end.
+
+Lemma points_objs_S f dev filter objs base :
+  points_objs (S f) dev filter objs base = ocat (map (pts_one (points_objs f dev filter) dev filter base) objs).
+Proof. reflexivity. Qed.
+
+Lemma own_points_in base a rep p :
+  In p (own_points base a rep) <-> exists k, 0 <= k < Z.max (rep_count rep) 1 /\ p = base + a + k * rep_stride rep.
+Proof.
+  unfold own_points. rewrite in_map_iff. split.
+  - intros (k & <- & Hk). apply zrange_In in Hk. eauto.
+  - intros (k & Hk & ->). exists k. split; [reflexivity|apply zrange_In; exact Hk].
+Qed.
+
+Lemma own_interval_max lo hi base a rep k :
+  lo <= base <= hi -> 0 <= k < Z.max (rep_count rep) 1 ->
+  own_lo lo a rep <= base + a + k * rep_stride rep <= own_hi hi a rep.
+Proof.
+  intros Hb Hk. unfold own_lo, own_hi. set (c := rep_count rep) in *. set (s := rep_stride rep). clearbody c s.
+  replace (Z.max (c - 1) 0) with (Z.max c 1 - 1) by lia. set (m := Z.max c 1) in *. clearbody m.
+  assert (Hl : (0 <= k * s <= (m - 1) * s) \/ ((m - 1) * s <= k * s <= 0)).
+  { destruct (Z_le_gt_dec 0 s); [left|right]; nia. }
+  lia.
+Qed.
+
+(* the ends of an object's own interval are addresses of the object: at index 0 or at the last index *)
+Lemma own_lo_in lo a rep : In (own_lo lo a rep) (own_points lo a rep).
+Proof.
+  apply own_points_in. unfold own_lo. set (c := rep_count rep). set (s := rep_stride rep).
+  destruct (Z_lt_le_dec (Z.max (c - 1) 0 * s) 0) as [Hn|Hn].
+  - exists (Z.max (c - 1) 0). split; [lia|]. rewrite Z.min_l by lia. reflexivity.
+  - exists 0. split; [lia|]. rewrite Z.min_r by lia. lia.
+Qed.
+
+Lemma own_hi_in hi a rep : In (own_hi hi a rep) (own_points hi a rep).
+Proof.
+  apply own_points_in. unfold own_hi. set (c := rep_count rep). set (s := rep_stride rep).
+  destruct (Z_lt_le_dec 0 (Z.max (c - 1) 0 * s)) as [Hn|Hn].
+  - exists (Z.max (c - 1) 0). split; [lia|]. rewrite Z.max_l by lia. reflexivity.
+  - exists 0. split; [lia|]. rewrite Z.max_r by lia. lia.
+Qed.
+
+(* every point lies in the walk's result *)
+Lemma points_bounded dev filter : forall fp objs base ps p,
+  points_objs fp dev filter objs base = Ok ps -> In p ps ->
+  forall fw lo hi acc r, lo <= base <= hi -> walk_objs fw dev filter objs lo hi acc = Ok r -> within r p.
+Proof.
+  induction fp as [|f IH]; intros objs base ps p H Hp fw lo hi acc r Hb Hw; [discriminate|].
+  destruct fw as [|fw]; [discriminate|].
+  rewrite points_objs_S in H. rewrite walk_objs_S in Hw.
+  assert (Hone : forall o a acc0 r0, pts_one (points_objs f dev filter) dev filter base o = Ok a -> In p a ->
+                   walk_one (walk_objs fw dev filter) dev filter lo hi o acc0 = Ok r0 -> within r0 p).
+  { intros o a acc0 r0 Ho Hpa Hwo. apply walk_one_inv in Hwo. unfold pts_one in Ho.
+    destruct (eff_address o (ref_target dev o)) as [a0|]; [|injection Ho as <-; destruct Hpa].
+    cbn zeta in Ho, Hwo. set (rep := eff_repeat o (ref_target dev o)) in *.
+    assert (Hown : forall q, In q (own_points base a0 rep) -> own_lo lo a0 rep <= q <= own_hi hi a0 rep).
+    { intros q Hq. apply own_points_in in Hq. destruct Hq as (k & Hk & ->). apply own_interval_max; assumption. }
+    assert (Hlisted : In p (if filter o then own_points base a0 rep else []) ->
+                      within (if filter o then widen acc0 (own_lo lo a0 rep) (own_hi hi a0 rep) else acc0) p).
+    { destruct (filter o); [|intros []]. intros Hq. apply widen_within. apply Hown. exact Hq. }
+    destruct (walk_children o (ref_target dev o)) as [ch|].
+    - destruct (ocat (map (points_objs f dev filter ch) (own_points base a0 rep))) as [below|k] eqn:Eb; [|discriminate].
+      injection Ho as <-. apply in_app_or in Hpa. destruct Hpa as [Hpa|Hpa].
+      + eapply within_mono; [apply Hlisted; exact Hpa|]. eapply walk_objs_mono; exact Hwo.
+      + apply ocat_map_ok in Eb. destruct Eb as (rs & HF & ->). apply in_concat in Hpa. destruct Hpa as (pl & Hpl & Hppl).
+        destruct (Forall2_in_r _ _ _ HF _ Hpl) as (q & Hq & Hcall).
+        eapply (IH _ _ _ _ Hcall Hppl); [apply Hown; exact Hq|exact Hwo].
+    - injection Ho as <-. subst r0. apply Hlisted. exact Hpa. }
+  clear Hb. revert ps H Hp acc Hw. induction objs as [|o t IHt]; intros ps H Hp acc Hw.
+  - cbn in H. injection H as <-. destruct Hp.
+  - cbn [map] in H. apply ocat_cons_ok in H. destruct H as (a & b & Ha & Hb & ->).
+    cbn [walk_list] in Hw. destruct (walk_one (walk_objs fw dev filter) dev filter lo hi o acc) as [a1|k] eqn:Eo; [|discriminate].
+    apply in_app_or in Hp. destruct Hp as [Hp|Hp].
+    + eapply within_mono; [eapply Hone; eauto|].
+      eapply walk_list_mono; [|exact Hw]. intros o0 a0 r0 Ho0. eapply walk_one_mono; [apply walk_objs_mono|exact Ho0].
+    + apply (IHt b Hb Hp a1 Hw).
+Qed.
+
+(* the lower end of the result is the lower end it started from, or a point below the lowest enclosing instance *)
+Lemma points_attained_lo dev filter : forall fw objs lo hi acc r,
+  walk_objs fw dev filter objs lo hi acc = Ok r ->
+  forall fp ps, points_objs fp dev filter objs lo = Ok ps -> fst r = fst acc \/ In (fst r) ps.
+Proof.
+  induction fw as [|fw IH]; intros objs lo hi acc r Hw fp ps H; [discriminate|].
+  destruct fp as [|f]; [discriminate|].
+  rewrite points_objs_S in H. rewrite walk_objs_S in Hw.
+  assert (Hone : forall o a acc0 r0, pts_one (points_objs f dev filter) dev filter lo o = Ok a ->
+                   walk_one (walk_objs fw dev filter) dev filter lo hi o acc0 = Ok r0 ->
+                   fst r0 = fst acc0 \/ In (fst r0) a).
+  { intros o a acc0 r0 Ho Hwo. apply walk_one_inv in Hwo. unfold pts_one in Ho.
+    destruct (eff_address o (ref_target dev o)) as [a0|]; [|subst r0; left; reflexivity].
+    cbn zeta in Ho, Hwo. set (rep := eff_repeat o (ref_target dev o)) in *.
+    pose proof (own_lo_in lo a0 rep) as Hin.
+    set (acc1 := if filter o then widen acc0 (own_lo lo a0 rep) (own_hi hi a0 rep) else acc0) in *.
+    assert (Hacc1 : fst acc1 = fst acc0 \/ In (fst acc1) (if filter o then own_points lo a0 rep else [])).
+    { unfold acc1. destruct (filter o); [|left; reflexivity]. unfold widen. cbn [fst].
+      destruct (Z_le_gt_dec (fst acc0) (own_lo lo a0 rep)); [left; lia|right]. rewrite Z.min_r by lia. exact Hin. }
+    destruct (walk_children o (ref_target dev o)) as [ch|].
+    - destruct (ocat (map (points_objs f dev filter ch) (own_points lo a0 rep))) as [below|k] eqn:Eb; [|discriminate].
+      injection Ho as <-. apply ocat_map_ok in Eb. destruct Eb as (rs & HF & ->).
+      destruct (Forall2_in_l _ _ _ HF _ Hin) as (pl & Hpl & Hcall).
+      destruct (IH _ _ _ _ _ Hwo _ _ Hcall) as [He|Hi].
+      + rewrite He. destruct Hacc1 as [H0|H1]; [left; exact H0|right; apply in_or_app; left; exact H1].
+      + right. apply in_or_app. right. apply in_concat. exists pl. split; assumption.
+    - injection Ho as <-. subst r0. exact Hacc1. }
+  revert ps H acc Hw. induction objs as [|o t IHt]; intros ps H acc Hw.
+  - cbn [walk_list] in Hw. injection Hw as <-. left; reflexivity.
+  - cbn [map] in H. apply ocat_cons_ok in H. destruct H as (a & b & Ha & Hb & ->).
+    cbn [walk_list] in Hw. destruct (walk_one (walk_objs fw dev filter) dev filter lo hi o acc) as [a1|k] eqn:Eo; [|discriminate].
+    destruct (IHt b Hb a1 Hw) as [He|Hi].
+    + rewrite He. destruct (Hone o a acc a1 Ha Eo) as [H0|H1]; [left; exact H0|right; apply in_or_app; left; exact H1].
+    + right. apply in_or_app. right. exact Hi.
+Qed.
+
+Lemma points_attained_hi dev filter : forall fw objs lo hi acc r,
+  walk_objs fw dev filter objs lo hi acc = Ok r ->
+  forall fp ps, points_objs fp dev filter objs hi = Ok ps -> snd r = snd acc \/ In (snd r) ps.
+Proof.
+  induction fw as [|fw IH]; intros objs lo hi acc r Hw fp ps H; [discriminate|].
+  destruct fp as [|f]; [discriminate|].
+  rewrite points_objs_S in H. rewrite walk_objs_S in Hw.
+  assert (Hone : forall o a acc0 r0, pts_one (points_objs f dev filter) dev filter hi o = Ok a ->
+                   walk_one (walk_objs fw dev filter) dev filter lo hi o acc0 = Ok r0 ->
+                   snd r0 = snd acc0 \/ In (snd r0) a).
+  { intros o a acc0 r0 Ho Hwo. apply walk_one_inv in Hwo. unfold pts_one in Ho.
+    destruct (eff_address o (ref_target dev o)) as [a0|]; [|subst r0; left; reflexivity].
+    cbn zeta in Ho, Hwo. set (rep := eff_repeat o (ref_target dev o)) in *.
+    pose proof (own_hi_in hi a0 rep) as Hin.
+    set (acc1 := if filter o then widen acc0 (own_lo lo a0 rep) (own_hi hi a0 rep) else acc0) in *.
+    assert (Hacc1 : snd acc1 = snd acc0 \/ In (snd acc1) (if filter o then own_points hi a0 rep else [])).
+    { unfold acc1. destruct (filter o); [|left; reflexivity]. unfold widen. cbn [snd].
+      destruct (Z_le_gt_dec (own_hi hi a0 rep) (snd acc0)); [left; lia|right]. rewrite Z.max_r by lia. exact Hin. }
+    destruct (walk_children o (ref_target dev o)) as [ch|].
+    - destruct (ocat (map (points_objs f dev filter ch) (own_points hi a0 rep))) as [below|k] eqn:Eb; [|discriminate].
+      injection Ho as <-. apply ocat_map_ok in Eb. destruct Eb as (rs & HF & ->).
+      destruct (Forall2_in_l _ _ _ HF _ Hin) as (pl & Hpl & Hcall).
+      destruct (IH _ _ _ _ _ Hwo _ _ Hcall) as [He|Hi].
+      + rewrite He. destruct Hacc1 as [H0|H1]; [left; exact H0|right; apply in_or_app; left; exact H1].
+      + right. apply in_or_app. right. apply in_concat. exists pl. split; assumption.
+    - injection Ho as <-. subst r0. exact Hacc1. }
+  revert ps H acc Hw. induction objs as [|o t IHt]; intros ps H acc Hw.
+  - cbn [walk_list] in Hw. injection Hw as <-. left; reflexivity.
+  - cbn [map] in H. apply ocat_cons_ok in H. destruct H as (a & b & Ha & Hb & ->).
+    cbn [walk_list] in Hw. destruct (walk_one (walk_objs fw dev filter) dev filter lo hi o acc) as [a1|k] eqn:Eo; [|discriminate].
+    destruct (IHt b Hb a1 Hw) as [He|Hi].
+    + rewrite He. destruct (Hone o a acc a1 Ha Eo) as [H0|H1]; [left; exact H0|right; apply in_or_app; left; exact H1].
+    + right. apply in_or_app. right. exact Hi.
+Qed.
+
+(* THE EXACT CHARACTERISATION: (min, max) of the walk = (minimum, maximum) of 0 and the points of the filter *)
+Theorem walk_exact fuel fp filter objs mn mx ps :
+  find_min_max_addresses fuel filter objs = Ok (mn, mx) -> points fp filter objs = Ok ps ->
+  (forall p, In p (0 :: ps) -> mn <= p <= mx) /\ In mn (0 :: ps) /\ In mx (0 :: ps).
+Proof.
+  unfold find_min_max_addresses, points. intros Hw Hp. split; [|split].
+  - intros p [<-|Hin].
+    + apply walk_objs_mono in Hw. unfold le_acc in Hw. cbn [fst snd] in Hw. lia.
+    + exact (points_bounded objs filter fp objs 0 ps p Hp Hin fuel 0 0 (0, 0) (mn, mx) ltac:(lia) Hw).
+  - destruct (points_attained_lo objs filter fuel objs 0 0 (0, 0) (mn, mx) Hw fp ps Hp) as [H|H]; cbn [fst] in H.
+    + left. symmetry. exact H.
+    + right. exact H.
+  - destruct (points_attained_hi objs filter fuel objs 0 0 (0, 0) (mn, mx) Hw fp ps Hp) as [H|H]; cbn [snd] in H.
+    + left. symmetry. exact H.
+    + right. exact H.
+Qed.
+
+(* the address of every instance the filter lets through is one of the points *)
+Lemma instances_in_points dev filter : forall fi objs bl path tags l i,
+  instances_objs fi dev objs bl path tags = Ok l -> In i l ->
+  filter_covers filter (i_kind i) ->
+  forall fp ps, points_objs fp dev filter objs (addr_sem path) = Ok ps -> In (i_addr i) ps.
+Proof.
+  induction fi as [|f IH]; intros objs bl path tags l i H Hi Hcov fp ps Hp; [discriminate|].
+  destruct fp as [|fp]; [discriminate|].
+  rewrite instances_objs_S in H. rewrite points_objs_S in Hp.
+  set (base := addr_sem path) in *.
+  assert (Hone : forall o a pa, inst_one (instances_objs f dev) dev bl path tags o = Ok a -> In i a ->
+                   pts_one (points_objs fp dev filter) dev filter base o = Ok pa -> In (i_addr i) pa).
+  { intros o a pa Ho Hia Hpo. unfold pts_one in Hpo.
+    assert (Hleaf : forall lf, In i (leaf_instances bl path tags lf) ->
+              filter o = true ->
+              eff_address o (ref_target dev o) = Some (lf_addr lf) ->
+              eff_repeat o (ref_target dev o) = lf_rep lf ->
+              walk_children o (ref_target dev o) = None -> In (i_addr i) pa).
+    { intros lf Hin Hf Ha Hr Hc. rewrite Ha, Hc, Hr, Hf in Hpo. cbn zeta in Hpo. injection Hpo as <-.
+      apply leaf_instances_in in Hin. destruct Hin as (k & Hk & ->).
+      unfold i_addr. cbn [i_path]. rewrite addr_sem_app. unfold step_sem. cbn [s_addr s_idx s_rep]. fold base.
+      apply own_points_in. exists k. split; lia. }
+    assert (Hblock : forall name off rep ch tg,
+              block_inst (instances_objs f dev) bl path name off rep ch tg = Ok a ->
+              eff_address o (ref_target dev o) = Some off ->
+              eff_repeat o (ref_target dev o) = rep ->
+              walk_children o (ref_target dev o) = Some ch -> In (i_addr i) pa).
+    { intros name off rep ch tg Hbi Ha Hr Hc. rewrite Ha, Hc, Hr in Hpo. cbn zeta in Hpo.
+      destruct (ocat (map (points_objs fp dev filter ch) (own_points base off rep))) as [below|k0] eqn:Eb; [|discriminate].
+      injection Hpo as <-. apply in_or_app. right.
+      destruct (block_inst_in _ _ _ _ _ _ _ _ _ _ Hbi Hia) as (k & r1 & Hk & Hrec & Hi1).
+      apply ocat_map_ok in Eb. destruct Eb as (rs & HF & ->).
+      assert (Hin : In (addr_sem (path ++ [{| s_addr := off; s_rep := rep; s_idx := k |}])) (own_points base off rep)).
+      { rewrite addr_sem_app. unfold step_sem. cbn [s_addr s_idx s_rep]. fold base.
+        apply own_points_in. exists k. split; lia. }
+      destruct (Forall2_in_l _ _ _ HF _ Hin) as (pl & Hpl & Hcall).
+      apply in_concat. exists pl. split; [exact Hpl|]. exact (IH _ _ _ _ _ _ Hrec Hi1 Hcov _ _ Hcall). }
+    destruct o as [c n off rep ch|rg|cm|bf|c n ov]; cbn [inst_one] in Ho.
+    - eapply Hblock; [exact Ho|reflexivity|unfold eff_repeat, object_repeat; destruct rep; reflexivity|reflexivity].
+    - injection Ho as <-. eapply Hleaf; [exact Hia| |reflexivity|unfold eff_repeat, object_repeat, ref_target; destruct (rg_repeat rg); reflexivity|reflexivity].
+      apply leaf_instances_in in Hia. destruct Hia as (k & _ & ->). apply Hcov. reflexivity.
+    - injection Ho as <-. eapply Hleaf; [exact Hia| |reflexivity|unfold eff_repeat, object_repeat, ref_target; destruct (cm_repeat cm); reflexivity|reflexivity].
+      apply leaf_instances_in in Hia. destruct Hia as (k & _ & ->). apply Hcov. reflexivity.
+    - injection Ho as <-. eapply Hleaf; [exact Hia| |reflexivity|reflexivity|reflexivity].
+      apply leaf_instances_in in Hia. destruct Hia as (k & _ & ->). apply Hcov. reflexivity.
+    - destruct ov as [tgt off rep|tgt acc1 addr allow reset rep|tgt addr allow rep];
+        (destruct (search_object tgt dev) as [t|] eqn:Es; [|discriminate]); destruct t; try discriminate.
+      + eapply Hblock; [exact Ho| | |].
+        * cbn [ref_target override_target]. rewrite Es. destruct off; reflexivity.
+        * cbn [ref_target override_target]. rewrite Es. destruct rep; reflexivity.
+        * cbn [ref_target override_target]. rewrite Es. reflexivity.
+      + injection Ho as <-. eapply Hleaf; [exact Hia| | | |].
+        * apply leaf_instances_in in Hia. destruct Hia as (k & _ & ->). apply Hcov. reflexivity.
+        * cbn [ref_target override_target]. rewrite Es. destruct addr; reflexivity.
+        * cbn [ref_target override_target]. rewrite Es. destruct rep; reflexivity.
+        * cbn [ref_target override_target]. rewrite Es. reflexivity.
+      + injection Ho as <-. eapply Hleaf; [exact Hia| | | |].
+        * apply leaf_instances_in in Hia. destruct Hia as (k & _ & ->). apply Hcov. reflexivity.
+        * cbn [ref_target override_target]. rewrite Es. destruct addr; reflexivity.
+        * cbn [ref_target override_target]. rewrite Es. destruct rep; reflexivity.
+        * cbn [ref_target override_target]. rewrite Es. reflexivity. }
+  revert l H Hi ps Hp. induction objs as [|o t IHt]; intros l H Hi ps Hp.
+  - cbn in H. injection H as <-. destruct Hi.
+  - cbn [map] in H, Hp. apply ocat_cons_ok in H. destruct H as (a & b & Ha & Hb & ->).
+    apply ocat_cons_ok in Hp. destruct Hp as (pa & pb & Hpa & Hpb & ->).
+    apply in_or_app. apply in_app_or in Hi. destruct Hi as [Hi|Hi].
+    + left. eapply Hone; eauto.
+    + right. eapply IHt; eauto.
+Qed.
+
+Theorem instances_are_points fi fp objs l i ps :
+  instances fi objs = Ok l -> In i l -> points fp (filter_kind (i_kind i)) objs = Ok ps -> In (i_addr i) ps.
+Proof.
+  intros H Hi Hp.
+  exact (instances_in_points objs _ fi objs [] [] [] l i H Hi (filter_covers_kind _) fp ps Hp).
+Qed.
+
+Lemma range_error_none k t mn mx : range_error k t mn mx = None -> integer_min t <= mn /\ mx <= integer_max t.
+Proof.
+  unfold range_error. destruct (integer_min t <=? mn) eqn:E1; cbn [negb]; [|discriminate].
+  destruct (mx <=? integer_max t) eqn:E2; cbn [negb]; [|discriminate]. lia.
+Qed.
+
+Lemma big_enough_kind_none fuel d k t :
+  address_type_of (d_config d) k = Some t -> big_enough_kind fuel d k = Ok None ->
+  exists mn mx, find_min_max_addresses fuel (filter_kind k) (d_objects d) = Ok (mn, mx) /\
+                integer_min t <= mn /\ mx <= integer_max t.
 Proof.
   unfold big_enough_kind. intros -> H.
-  destruct (find_min_max_addresses (filter_kind k) (d_objects d)) as [mn mx]. cbn [fst snd].
-  destruct (integer_min t <=? mn) eqn:E1; cbn [negb] in H; [|discriminate].
-  destruct (mx <=? integer_max t) eqn:E2; cbn [negb] in H; [|discriminate]. lia.
+  destruct (find_min_max_addresses fuel (filter_kind k) (d_objects d)) as [[mn mx]|f]; [|discriminate].
+  injection H as H. exists mn, mx. split; [reflexivity|]. apply (range_error_none k). exact H.
 Qed.
 
-Lemma big_enough_all_kinds d k : address_types_big_enough d = None -> big_enough_kind d k = None.
+Lemma big_enough_seq_none fuel d : forall ks,
+  big_enough_seq fuel d ks = Ok None -> Forall (fun k => big_enough_kind fuel d k = Ok None) ks.
 Proof.
-  unfold address_types_big_enough. intros H. rewrite first_error_none, Forall_forall in H.
+  induction ks as [|k t IH]; intros H; [constructor|]. cbn [big_enough_seq] in H.
+  destruct (big_enough_kind fuel d k) as [[e|]|f] eqn:Ek; try discriminate. constructor; auto.
+Qed.
+
+Lemma big_enough_all_kinds fuel d k : address_types_big_enough fuel d = Ok None -> big_enough_kind fuel d k = Ok None.
+Proof.
+  unfold address_types_big_enough. intros H. apply big_enough_seq_none in H. rewrite Forall_forall in H.
   apply H. destruct k; cbn; auto.
 Qed.
 
-Theorem untagged_fits d fuel l i t :
-  instances fuel (d_objects d) = Ok l -> In i l -> untagged i = true ->
-  address_types_big_enough d = None ->
+(* address_types_big_enough passes ==> every instance fits its kind's address type *)
+Theorem all_fit fuel d fi l i t :
+  instances fi (d_objects d) = Ok l -> In i l ->
+  address_types_big_enough fuel d = Ok None ->
   address_type_of (d_config d) (i_kind i) = Some t ->
   in_range (integer_ity t) (i_addr i) = true.
 Proof.
-  intros H Hi Hu Hbe Ht.
-  pose proof (untagged_bounded _ _ _ _ H Hi Hu) as Hb.
-  pose proof (big_enough_kind_none d _ t Ht (big_enough_all_kinds d _ Hbe)) as Hk.
+  intros H Hi Hbe Ht.
+  destruct (big_enough_kind_none fuel d _ t Ht (big_enough_all_kinds fuel d _ Hbe)) as (mn & mx & Hw & Hlo & Hhi).
+  pose proof (walk_bounds_instances _ _ _ _ _ _ _ _ Hw H Hi eq_refl) as Hb.
   unfold in_range, integer_min, integer_max in *. lia.
 Qed.
+
 
 (* trees in the class of C13_partial have only untagged instances *)
 Definition simple_obj (dev : list object) (o : object) : bool :=
@@ -894,18 +1182,18 @@ Definition claimed_one (rec : list lmethod -> Z -> list string -> outcome (list 
   let off' := off + m_address m in
   let count := rep_count (m_repeat m) in
   let stride := rep_stride (m_repeat m) in
-  chk64 off'
+  chk128 off'
     match m_kind m with
     | MBlock name =>
         match find_block name blocks with
         | None => Fail AssertFail
         | Some sb =>
-            ocat (map (fun i => chk64 (i * stride) (chk64 (off' + i * stride)
+            ocat (map (fun i => chk128 (i * stride) (chk128 (off' + i * stride)
                                   (rec (b_methods sb) (off' + i * stride)
                                      (stack ++ [(name ++ index_suffix i)%string]))) ) (zrange count))
         end
     | MLeaf k =>
-        ocat (map (fun i => chk64 (i * stride) (chk64 (off' + i * stride)
+        ocat (map (fun i => chk128 (i * stride) (chk128 (off' + i * stride)
                       (Ok [{| c_name := String.concat "::" (stack ++ [m_name m]);
                               c_index := if rep_is (m_repeat m) then Some i else None;
                               c_address := off' + i * stride;
@@ -918,8 +1206,8 @@ Lemma claimed_methods_S f blocks ms off stack :
   ocat (map (claimed_one (claimed_methods f blocks) blocks off stack) ms).
 Proof. reflexivity. Qed.
 
-Lemma chk64_ok {A} z (x : outcome A) r : chk64 z x = Ok r -> x = Ok r.
-Proof. unfold chk64. destruct (in_i64 z); [auto|discriminate]. Qed.
+Lemma chk128_ok {A} z (x : outcome A) r : chk128 z x = Ok r -> x = Ok r.
+Proof. unfold chk128. destruct (in_i128 z); [auto|discriminate]. Qed.
 
 Lemma Forall2_concat {A B} (R : A -> B -> Prop) ls ls' :
   Forall2 (Forall2 R) ls ls' -> Forall2 R (List.concat ls) (List.concat ls').
@@ -948,12 +1236,12 @@ Proof. induction s as [|a s IH]; cbn; [reflexivity|]. rewrite IH. reflexivity. Q
 
 (* singleton-producing guarded maps *)
 Lemma ocat_guarded_singletons {A} (g : Z -> A) (z1 z2 : Z -> Z) l r :
-  ocat (map (fun i => chk64 (z1 i) (chk64 (z2 i) (Ok [g i]))) l) = Ok r -> r = map g l.
+  ocat (map (fun i => chk128 (z1 i) (chk128 (z2 i) (Ok [g i]))) l) = Ok r -> r = map g l.
 Proof.
   revert r. induction l as [|x t IH]; intros r H; cbn in H.
   - injection H as <-. reflexivity.
   - apply ocat_cons_ok in H. destruct H as (a & b & Ha & Hb & ->).
-    apply chk64_ok in Ha. apply chk64_ok in Ha. injection Ha as <-. rewrite (IH b Hb). reflexivity.
+    apply chk128_ok in Ha. apply chk128_ok in Ha. injection Ha as <-. rewrite (IH b Hb). reflexivity.
 Qed.
 
 (* fuel monotonicity of the lowering *)
@@ -1053,7 +1341,7 @@ Section Corr.
     Forall2 corr a (leaf_instances bl path tags lf).
   Proof.
     intros Hc Hk Hlk Hn Ha Hr Hfl Hoff Hst. unfold claimed_one in Hc. cbn zeta in Hc.
-    apply chk64_ok in Hc. rewrite Hk in Hc. apply ocat_guarded_singletons in Hc. subst a.
+    apply chk128_ok in Hc. rewrite Hk in Hc. apply ocat_guarded_singletons in Hc. subst a.
     unfold leaf_instances. rewrite Hr. apply Forall2_map_same. intros i Hi.
     unfold corr, claimed_display, instance_display, i_addr.
     cbn [c_kind c_name c_index c_address c_allow i_kind i_blocks i_name i_index i_path i_allow i_tags].
@@ -1086,7 +1374,7 @@ Section Corr.
               block_inst (instances_objs f3 dev) bl path name off0 rep ch tg = Ok b ->
               Forall2 corr a b).
     { intros m name off0 rep ch tg a b (c' & off' & rep' & Hin) Hk Ha Hr Hc Hb.
-      unfold claimed_one in Hc. cbn zeta in Hc. apply chk64_ok in Hc. rewrite Hk in Hc.
+      unfold claimed_one in Hc. cbn zeta in Hc. apply chk128_ok in Hc. rewrite Hk in Hc.
       destruct (find_block name BL) as [sb|] eqn:Ef; [|discriminate].
       destruct (HBL name sb Ef) as (c2 & off2 & rep2 & objs2 & fg & blsg & Hin2 & Hlow2); [eauto|].
       rewrite (find_block_name _ _ Ef) in Hin2.
@@ -1095,7 +1383,7 @@ Section Corr.
       unfold block_inst in Hb. apply ocat_map_ok in Hb. destruct Hb as (rb & HFb & ->).
       rewrite Hr in HFa. apply Forall2_concat.
       eapply Forall2_same_index; [exact HFa|exact HFb|].
-      intros i ya yb Hi Hya Hyb. cbn beta in Hya, Hyb. apply chk64_ok in Hya. apply chk64_ok in Hya.
+      intros i ya yb Hi Hya Hyb. cbn beta in Hya, Hyb. apply chk128_ok in Hya. apply chk128_ok in Hya.
       eapply IH; [|exact Hlow2|exact Hya|exact Hyb| |].
       - intros x Hx. eapply flat_children; eauto.
       - rewrite addr_sem_app. unfold step_sem. cbn. subst off. rewrite Ha. lia.
@@ -1350,104 +1638,8 @@ Proof.
 Qed.
 
 (* ================================================================================================ *)
-(** * 8. C13: the emitted arithmetic does not overflow on the way (untagged instances) *)
+(** * 8. C13: the emitted arithmetic does not overflow on the way *)
 
-(* every value the emitted code computes from exact operands: base + ADDR and the step's result *)
-Fixpoint checkpoints (base : Z) (path : list step) : list Z :=
-  match path with
-  | [] => []
-  | s :: t => (base + s_addr s) :: (base + step_sem s) :: checkpoints (base + step_sem s) t
-  end.
-
-Lemma Forall_within_mono a b l : Forall (within a) l -> le_acc a b -> Forall (within b) l.
-Proof. intros H Hle. eapply Forall_impl; [|exact H]. intros z Hz. eapply within_mono; eauto. Qed.
-
-Lemma inst_checkpoints dev filter (Hfb : filter_blocks filter) : forall fuel objs bl path tags l i,
-  instances_objs fuel dev objs bl path tags = Ok l -> In i l -> clean (i_tags i) ->
-  filter_covers filter (i_kind i) ->
-  exists rest, i_path i = path ++ rest /\
-    forall acc, Forall (within (mm_struct_list filter (addr_sem path) objs acc)) (checkpoints (addr_sem path) rest).
-Proof.
-  induction fuel as [|f IH]; intros objs bl path tags l i H Hi Hcl Hcov; [discriminate|].
-  rewrite instances_objs_S in H.
-  assert (Hone : forall o a, inst_one (instances_objs f dev) dev bl path tags o = Ok a -> In i a ->
-                   exists rest, i_path i = path ++ rest /\
-                     forall acc, Forall (within (mm_struct filter (addr_sem path) o acc)) (checkpoints (addr_sem path) rest)).
-  { intros o a Ho Hia.
-    assert (Hleaf : forall lf, In i (leaf_instances bl path tags lf) ->
-              filter o = true -> object_address o = Some (lf_addr lf) ->
-              (rep_count (object_repeat o) = rep_count (lf_rep lf) /\ rep_stride (object_repeat o) = rep_stride (lf_rep lf)) ->
-              exists rest, i_path i = path ++ rest /\
-                forall acc, Forall (within (visit filter (addr_sem path) o acc)) (checkpoints (addr_sem path) rest)).
-    { intros lf Hin Hf Ha (Hc & Hs). apply leaf_instances_in in Hin. destruct Hin as (k & Hk & ->).
-      eexists. split; [reflexivity|]. intros acc. cbn [checkpoints]. unfold step_sem. cbn [s_addr s_idx s_rep].
-      constructor; [apply visit_within0; auto|]. constructor; [|constructor].
-      rewrite <- Hs, Z.add_assoc. apply visit_within; auto. rewrite Hc. assumption. }
-    destruct o as [c n off rep ch|rg|cm|bf|c n ov]; cbn [inst_one] in Ho.
-    - destruct (block_inst_in _ _ _ _ _ _ _ _ _ _ Ho Hia) as (k & r1 & Hk & Hrec & Hi1).
-      destruct (tags_prefix _ _ _ _ _ _ _ _ Hrec Hi1) as (rest0 & Ht).
-      assert (Hrep : rep = None).
-      { pose proof Hcl as Hc. rewrite Ht in Hc. apply clean_app in Hc. destruct Hc as [Hc _].
-        apply clean_app in Hc. destruct Hc as [_ Hc]. apply clean_opt_tag in Hc; [|discriminate].
-        destruct rep; [discriminate|reflexivity]. }
-      subst rep. assert (k = 0) by (unfold rep_count in Hk; lia). subst k.
-      destruct (IH _ _ _ _ _ _ Hrec Hi1 Hcl Hcov) as (rest & Hp & Hb).
-      exists ({| s_addr := off; s_rep := None; s_idx := 0 |} :: rest). split; [rewrite Hp, <- app_assoc; reflexivity|].
-      intros acc. rewrite mm_struct_block. cbn [checkpoints]. unfold step_sem. cbn [s_addr s_idx s_rep].
-      unfold rep_stride. replace (off + 0 * 0) with off by lia.
-      rewrite addr_sem_app in Hb. unfold step_sem in Hb. cbn [s_addr s_idx s_rep] in Hb. unfold rep_stride in Hb.
-      replace (addr_sem path + (off + 0 * 0)) with (addr_sem path + off) in Hb by lia.
-      set (acc1 := visit filter (addr_sem path) (OBlock c n off None ch) acc).
-      assert (Hw : within acc1 (addr_sem path + off)) by (apply visit_within0; [apply Hfb|reflexivity]).
-      constructor; [eapply within_mono; [exact Hw|apply mm_struct_list_mono]|].
-      constructor; [eapply within_mono; [exact Hw|apply mm_struct_list_mono]|]. apply Hb.
-    - injection Ho as <-. eapply Hleaf; [exact Hia| | reflexivity | split; reflexivity].
-      apply leaf_instances_in in Hia. destruct Hia as (k & _ & ->). apply Hcov. reflexivity.
-    - injection Ho as <-. eapply Hleaf; [exact Hia| | reflexivity | split; reflexivity].
-      apply leaf_instances_in in Hia. destruct Hia as (k & _ & ->). apply Hcov. reflexivity.
-    - injection Ho as <-. eapply Hleaf; [exact Hia| | reflexivity | split; reflexivity].
-      apply leaf_instances_in in Hia. destruct Hia as (k & _ & ->). apply Hcov. reflexivity.
-    - destruct ov as [tgt off rep|tgt acc0 addr allow reset rep|tgt addr allow rep];
-        (destruct (search_object _ dev) as [t|]; [|discriminate]); destruct t; try discriminate.
-      + destruct (block_inst_in _ _ _ _ _ _ _ _ _ _ Ho Hia) as (k & r1 & Hk & Hrec & Hi1).
-        destruct (tags_prefix _ _ _ _ _ _ _ _ Hrec Hi1) as (rest & Ht).
-        exfalso. rewrite Ht in Hcl. apply clean_app in Hcl. destruct Hcl as [Hc _].
-        apply clean_app in Hc. destruct Hc as [Hc _]. apply clean_app in Hc. destruct Hc as [_ Hc].
-        specialize (Hc TBlockRef (or_introl eq_refl)). discriminate.
-      + injection Ho as <-. pose proof Hia as Hia'. apply leaf_instances_in in Hia'. destruct Hia' as (k & _ & Hi').
-        assert (Hc : clean (opt_tag (is_none addr) TRefNoAddr
-                              ++ opt_tag (is_none rep && rep_is (rg_repeat r)) TRefKeepsRepeat
-                              ++ opt_tag allow TOwnFlag)).
-        { rewrite Hi' in Hcl. cbn [i_tags lf_tags] in Hcl. apply clean_app in Hcl. apply Hcl. }
-        apply clean_app in Hc. destruct Hc as [Hc1 Hc]. apply clean_app in Hc. destruct Hc as [Hc2 _].
-        apply clean_opt_tag in Hc1; [|discriminate]. apply clean_opt_tag in Hc2; [|discriminate].
-        destruct addr as [a0|]; [|discriminate].
-        eapply Hleaf; [exact Hia| | reflexivity | ].
-        * apply Hcov. rewrite Hi'. reflexivity.
-        * cbn [lf_rep object_repeat]. destruct rep as [rp|]; [split; reflexivity|].
-          cbn in Hc2. destruct (rg_repeat r); [discriminate|]. split; reflexivity.
-      + injection Ho as <-. pose proof Hia as Hia'. apply leaf_instances_in in Hia'. destruct Hia' as (k & _ & Hi').
-        assert (Hc : clean (opt_tag (is_none addr) TRefNoAddr
-                              ++ opt_tag (is_none rep && rep_is (cm_repeat c0)) TRefKeepsRepeat
-                              ++ opt_tag allow TOwnFlag)).
-        { rewrite Hi' in Hcl. cbn [i_tags lf_tags] in Hcl. apply clean_app in Hcl. apply Hcl. }
-        apply clean_app in Hc. destruct Hc as [Hc1 Hc]. apply clean_app in Hc. destruct Hc as [Hc2 _].
-        apply clean_opt_tag in Hc1; [|discriminate]. apply clean_opt_tag in Hc2; [|discriminate].
-        destruct addr as [a0|]; [|discriminate].
-        eapply Hleaf; [exact Hia| | reflexivity | ].
-        * apply Hcov. rewrite Hi'. reflexivity.
-        * cbn [lf_rep object_repeat]. destruct rep as [rp|]; [split; reflexivity|].
-          cbn in Hc2. destruct (cm_repeat c0); [discriminate|]. split; reflexivity. }
-  revert l H Hi. induction objs as [|o t IHt]; intros l H Hi.
-  - cbn in H. injection H as <-. destruct Hi.
-  - cbn [map] in H. apply ocat_cons_ok in H. destruct H as (a & b & Ha & Hb & ->).
-    apply in_app_or in Hi. destruct Hi as [Hi|Hi].
-    + destruct (Hone o a Ha Hi) as (rest & Hp & Hw). exists rest. split; [exact Hp|].
-      intros acc. unfold mm_struct_list. cbn [fold_left].
-      eapply Forall_within_mono; [apply Hw|]. apply (mm_struct_list_mono filter (addr_sem path) t).
-    + destruct (IHt b Hb Hi) as (rest & Hp & Hw). exists rest. split; [exact Hp|].
-      intros acc. unfold mm_struct_list. cbn [fold_left]. apply Hw.
-Qed.
 
 (* --- machine evaluation of a path whose exact values are all representable --- *)
 
@@ -1534,7 +1726,7 @@ Lemma best_internal_covers mn mx it :
 Proof.
   unfold best_internal. intros H Hmm.
   set (m := Z.max (Z.abs mn) (Z.abs mx) + 1) in *.
-  destruct (2 ^ 63 <? m); [discriminate|]. injection H as <-. cbn [bits signed].
+  destruct (2 ^ 127 <? m); [discriminate|]. injection H as <-. cbn [bits signed].
   set (k := Z.log2 (next_power_of_two m)).
   assert (Hk0 : 0 <= k) by apply Z.log2_nonneg.
   assert (Hmk : m <= 2 ^ k) by (apply log2_next_power_of_two; lia).
@@ -1548,68 +1740,6 @@ Proof.
   - subst sg. apply Z.ltb_ge in Es. assert (Hpow : 2 ^ k <= 2 ^ b) by (apply Z.pow_le_mono_r; lia). lia.
 Qed.
 
-Lemma walk_contains_zero filter objs :
-  filter_blocks filter ->
-  fst (find_min_max_addresses filter objs) <= 0 <= snd (find_min_max_addresses filter objs).
-Proof.
-  intros Hfb. rewrite walk_struct by assumption.
-  pose proof (mm_struct_list_mono filter 0 objs (0, 0)) as H. unfold le_acc in H. cbn in H. lia.
-Qed.
-
-Definition last_step_product_ok (it : ity) (path : list step) : Prop :=
-  match last path {| s_addr := 0; s_rep := None; s_idx := 0 |} with
-  | {| s_rep := Some r |} => (r_count r - 1) * Z.abs (r_stride r) <= ity_max it
-  | _ => True
-  end.
-
-Lemma checkpoints_app p : forall base q,
-  checkpoints base (p ++ q) = checkpoints base p ++ checkpoints (base + addr_sem p) q.
-Proof.
-  induction p as [|s t IH]; intros base q.
-  - cbn [app checkpoints]. f_equal. unfold addr_sem, zsum. cbn. lia.
-  - cbn [app checkpoints]. rewrite IH. do 2 f_equal. f_equal. f_equal. unfold addr_sem, zsum. cbn [map fold_right]. lia.
-Qed.
-
-(* the path of an untagged instance: plain (non-repeated) block steps, then the object's own step *)
-Lemma inst_path_shape dev : forall fuel objs bl path tags l i,
-  instances_objs fuel dev objs bl path tags = Ok l -> In i l -> clean (i_tags i) ->
-  exists mid s, i_path i = path ++ mid ++ [s] /\ Forall (fun b => s_rep b = None) mid /\
-                0 <= s_idx s < rep_count (s_rep s).
-Proof.
-  induction fuel as [|f IH]; intros objs bl path tags l i H Hi Hcl; [discriminate|].
-  rewrite instances_objs_S in H. apply ocat_map_ok in H. destruct H as (rs & HF & ->).
-  apply in_concat in Hi. destruct Hi as (r & Hr & Hi).
-  destruct (Forall2_in_r _ _ _ HF _ Hr) as (o & Ho & Hcall).
-  assert (Hleaf : forall lf, In i (leaf_instances bl path tags lf) ->
-            exists mid s, i_path i = path ++ mid ++ [s] /\ Forall (fun b => s_rep b = None) mid /\
-                          0 <= s_idx s < rep_count (s_rep s)).
-  { intros lf Hin. apply leaf_instances_in in Hin. destruct Hin as (k & Hk & ->).
-    exists [], {| s_addr := lf_addr lf; s_rep := lf_rep lf; s_idx := k |}. cbn. auto. }
-  assert (Hblock : forall name off rep ch tg, block_inst (instances_objs f dev) bl path name off rep ch tg = Ok r ->
-            exists mid s, i_path i = path ++ mid ++ [s] /\ Forall (fun b => s_rep b = None) mid /\
-                          0 <= s_idx s < rep_count (s_rep s)).
-  { intros name off rep ch tg Hb.
-    destruct (block_inst_in _ _ _ _ _ _ _ _ _ _ Hb Hi) as (k & r1 & Hk & Hrec & Hi1).
-    destruct (tags_prefix _ _ _ _ _ _ _ _ Hrec Hi1) as (rest0 & Ht).
-    assert (Hrep : rep = None).
-    { pose proof Hcl as Hc. rewrite Ht in Hc. apply clean_app in Hc. destruct Hc as [Hc _].
-      apply clean_app in Hc. destruct Hc as [_ Hc]. apply clean_opt_tag in Hc; [|discriminate].
-      destruct rep; [discriminate|reflexivity]. }
-    subst rep. destruct (IH _ _ _ _ _ _ Hrec Hi1 Hcl) as (mid & s & Hp & Hmid & Hs).
-    exists ({| s_addr := off; s_rep := None; s_idx := k |} :: mid), s. split; [|split; [constructor; [reflexivity|assumption]|assumption]].
-    rewrite Hp, <- app_assoc. reflexivity. }
-  destruct o as [c n off rep ch|rg|cm|bf|c n ov]; cbn [inst_one] in Hcall.
-  - eapply Hblock; eauto.
-  - injection Hcall as <-. eapply Hleaf; eauto.
-  - injection Hcall as <-. eapply Hleaf; eauto.
-  - injection Hcall as <-. eapply Hleaf; eauto.
-  - destruct ov as [tgt off rep|tgt acc0 addr allow reset rep|tgt addr allow rep];
-      (destruct (search_object _ dev) as [t|]; [|discriminate]); destruct t; try discriminate.
-    + eapply Hblock; eauto.
-    + injection Hcall as <-. eapply Hleaf; eauto.
-    + injection Hcall as <-. eapply Hleaf; eauto.
-Qed.
-
 Lemma ity_min_le_0 it : ity_min it <= 0.
 Proof.
   unfold ity_min. destruct (signed it); [|lia].
@@ -1618,68 +1748,85 @@ Proof.
   - pose proof (Z.pow_pos_nonneg 2 (bits it - 1)). lia.
 Qed.
 
-(* For every untagged instance of ANY tree: with the internal type chosen by find_best_internal_address
-   and overflow checks on, the emitted arithmetic computes exactly addr_sem — provided the internal type is
-   unsigned, or the object's own (count-1)*|stride| fits the internal type (the D3b side condition). *)
-Theorem untagged_no_overflow d fuel l i it :
-  instances fuel (d_objects d) = Ok l -> In i l -> untagged i = true ->
-  internal_type d = Ok it ->
-  (signed it = false \/ last_step_product_ok it (i_path i)) ->
-  steps_eval true it 0 (i_path i) = Ok (i_addr i).
+(* what the steps of a path need, from the bounds of the walk and the D3b side condition *)
+Lemma steps_ok_of_bounds it mn mx :
+  mn <= 0 <= mx -> (forall z, mn <= z <= mx -> in_range it z = true) ->
+  forall path base, mn <= base <= mx -> Forall idx_ok path ->
+    Forall (fun z => mn <= z <= mx) (checkpoints base path) ->
+    (mn = 0 \/ steps_product_ok it path) ->
+    Forall (step_ok it) path.
 Proof.
-  intros H Hi Hu Hit Hside. apply untagged_clean in Hu.
-  destruct (inst_checkpoints (d_objects d) filter_all filter_all_blocks fuel (d_objects d) [] [] [] l i H Hi Hu
-              (filter_covers_all _)) as (rest & Hp & Hcp).
-  cbn [app] in Hp. specialize (Hcp (0, 0)). rewrite addr_sem_nil in Hcp.
-  fold (mm_struct_list filter_all 0 (d_objects d) (0, 0)) in Hcp.
-  rewrite <- (walk_struct filter_all (d_objects d) filter_all_blocks) in Hcp.
-  pose proof (walk_contains_zero filter_all (d_objects d) filter_all_blocks) as Hz.
-  unfold internal_type in Hit.
-  destruct (find_min_max_addresses filter_all (d_objects d)) as [mn mx] eqn:Emm. cbn [fst snd] in *.
-  destruct (best_internal_covers mn mx it Hit Hz) as (Hbits & Hsg & Hcov).
-  destruct (inst_path_shape (d_objects d) fuel (d_objects d) [] [] [] l i H Hi Hu) as (mid & s & Hp2 & Hmid & Hs).
-  cbn [app] in Hp2. rewrite <- Hp in Hcp.
-  assert (Hall : Forall (fun z => in_range it z = true) (checkpoints 0 (i_path i))).
-  { eapply Forall_impl; [|exact Hcp]. intros z Hz0. apply Hcov. exact Hz0. }
-  unfold i_addr. replace (addr_sem (i_path i)) with (0 + addr_sem (i_path i)) by lia.
-  apply steps_eval_exact; [lia| |exact Hall].
-  rewrite Hp2. apply Forall_app. split.
-  - eapply Forall_impl; [|exact Hmid]. intros b Hb. unfold step_ok. rewrite Hb. exact I.
-  - constructor; [|constructor]. unfold step_ok. destruct (s_rep s) as [r|] eqn:Er; [|exact I].
-    unfold rep_count in Hs. split; [exact Hs|].
-    (* the two checkpoints of the last step *)
-    rewrite Hp2, checkpoints_app in Hcp. apply Forall_app in Hcp. destruct Hcp as [_ Hcp].
-    cbn [checkpoints] in Hcp. inversion Hcp as [|? ? Ht1 Hcp']; subst. inversion Hcp' as [|? ? Hfin _]; subst.
-    unfold within in Ht1, Hfin. cbn [fst snd] in Ht1, Hfin. unfold step_sem in Hfin. rewrite Er in Hfin. unfold rep_stride in Hfin.
-    set (B := 0 + addr_sem mid) in *. clearbody B.
+  intros Hmm Hcov. induction path as [|s t IH]; intros base Hbase Hidx Hcp Hside; [constructor|].
+  cbn [checkpoints] in Hcp. inversion Hcp as [|? ? H1 Hcp']; subst. inversion Hcp' as [|? ? H2 Hcp'']; subst.
+  inversion Hidx as [|? ? Hi Hidx']; subst.
+  constructor.
+  - unfold step_ok. unfold idx_ok in Hi. unfold step_sem in H2. destruct (s_rep s) as [r|] eqn:Er; [|exact I].
+    unfold rep_count in Hi. unfold rep_stride in H2. split; [exact Hi|].
     assert (Habs : 0 <= s_idx s * Z.abs (r_stride r)) by nia.
     assert (Hprod_le : s_idx s * Z.abs (r_stride r) <= (r_count r - 1) * Z.abs (r_stride r)) by nia.
     assert (Hidx_le : r_stride r = 0 \/ s_idx s <= s_idx s * Z.abs (r_stride r)) by nia.
-    destruct Hside as [Huns|Hprod].
-    + (* unsigned internal type: mn = 0 *)
-      rewrite Hsg in Huns. apply Z.ltb_ge in Huns. assert (mn = 0) by lia. subst mn.
-      assert (Hd : s_idx s * Z.abs (r_stride r) <= mx) by nia.
-      split; [apply Hcov; lia|]. destruct Hidx_le as [H0|Hle]; [left; exact H0|right; apply Hcov; lia].
-    + unfold last_step_product_ok in Hprod. rewrite Hp2 in Hprod.
-      rewrite last_last in Hprod. destruct s as [sa sr si]. cbn in Er. subst sr. cbn [s_idx] in *.
+    destruct Hside as [H0|Hprod].
+    + subst mn.
+      assert (Hd : s_idx s * Z.abs (r_stride r) <= mx).
+      { destruct (Z_le_gt_dec 0 (r_stride r)) as [Hs|Hs].
+        - rewrite Z.abs_eq by lia. lia.
+        - rewrite Z.abs_neq by lia. lia. }
+      split; [apply Hcov; lia|]. destruct Hidx_le as [Hz|Hle]; [left; exact Hz|right; apply Hcov; lia].
+    + inversion Hprod as [|? ? Hp _]; subst. unfold step_product_ok in Hp. rewrite Er in Hp.
       pose proof (ity_min_le_0 it) as Hmin0.
-      split; [unfold in_range; lia|]. destruct Hidx_le as [H0|Hle]; [left; exact H0|right; unfold in_range; lia].
+      split; [unfold in_range; lia|]. destruct Hidx_le as [Hz|Hle]; [left; exact Hz|right; unfold in_range; lia].
+  - apply (IH (base + step_sem s)); auto.
+    destruct Hside as [H0|Hprod]; [left; exact H0|right]. inversion Hprod; assumption.
 Qed.
+
+(* For every instance of ANY tree: with the internal type chosen by find_best_internal_address (from the walk with
+   `|_| true`) every value on the way lies in the internal type, and — internal type unsigned, or every step's
+   (count-1)*|stride| within it (the D3b side condition) — the emitted arithmetic with overflow checks on computes
+   exactly addr_sem. *)
+Theorem internal_covers_checkpoints d fuel fi l i it :
+  instances fi (d_objects d) = Ok l -> In i l -> internal_type_at fuel d = Ok it ->
+  Forall (fun z => in_range it z = true) (checkpoints 0 (i_path i)).
+Proof.
+  intros H Hi Hit. unfold internal_type_at in Hit.
+  destruct (find_min_max_addresses fuel filter_all (d_objects d)) as [[mn mx]|f] eqn:Ew; [|discriminate].
+  destruct (walk_bounds_checkpoints _ _ _ _ _ _ _ Ew H Hi) as (_ & Hcp).
+  destruct (best_internal_covers mn mx it Hit (walk_contains_zero _ _ _ _ _ Ew)) as (_ & _ & Hcov).
+  eapply Forall_impl; [|exact Hcp]. intros z Hz. apply Hcov. exact Hz.
+Qed.
+
+Theorem no_overflow d fuel fi l i it :
+  instances fi (d_objects d) = Ok l -> In i l -> internal_type_at fuel d = Ok it ->
+  (signed it = false \/ steps_product_ok it (i_path i)) ->
+  steps_eval true it 0 (i_path i) = Ok (i_addr i).
+Proof.
+  intros H Hi Hit Hside. pose proof Hit as Hit0. unfold internal_type_at in Hit.
+  destruct (find_min_max_addresses fuel filter_all (d_objects d)) as [[mn mx]|f] eqn:Ew; [|discriminate].
+  destruct (walk_bounds_checkpoints _ _ _ _ _ _ _ Ew H Hi) as (Hidx & Hcp).
+  pose proof (walk_contains_zero _ _ _ _ _ Ew) as Hz.
+  destruct (best_internal_covers mn mx it Hit Hz) as (Hbits & Hsg & Hcov).
+  unfold i_addr. replace (addr_sem (i_path i)) with (0 + addr_sem (i_path i)) by lia.
+  apply steps_eval_exact; [lia| |].
+  - apply (steps_ok_of_bounds it mn mx Hz Hcov (i_path i) 0); [lia|exact Hidx|exact Hcp|].
+    destruct Hside as [Huns|Hp]; [left|right; exact Hp].
+    rewrite Hsg in Huns. apply Z.ltb_ge in Huns. lia.
+  - eapply Forall_impl; [|exact Hcp]. intros z Hz0. apply Hcov. exact Hz0.
+Qed.
+
 
 Lemma integer_bits_pos t : 0 < bits (integer_ity t).
 Proof. destruct t; cbn; lia. Qed.
 
-Theorem untagged_gen_addr d fuel l i it t :
-  instances fuel (d_objects d) = Ok l -> In i l -> untagged i = true ->
-  internal_type d = Ok it ->
-  (signed it = false \/ last_step_product_ok it (i_path i)) ->
+Theorem gen_addr_exact d fuel fi l i it t :
+  instances fi (d_objects d) = Ok l -> In i l -> internal_type_at fuel d = Ok it ->
+  (signed it = false \/ steps_product_ok it (i_path i)) ->
   in_range (integer_ity t) (i_addr i) = true ->
   gen_addr true it (integer_ity t) (i_path i) = Ok (i_addr i).
 Proof.
-  intros H Hi Hu Hit Hside Hfit. unfold gen_addr.
-  rewrite (untagged_no_overflow d fuel l i it H Hi Hu Hit Hside). cbn [bind].
+  intros H Hi Hit Hside Hfit. unfold gen_addr.
+  rewrite (no_overflow d fuel fi l i it H Hi Hit Hside). cbn [bind].
   rewrite (in_range_wrap _ _ (integer_bits_pos t) Hfit). reflexivity.
 Qed.
+
 
 (* ================================================================================================ *)
 (** * 9. Assembled statements used by props/C12.v and props/C13.v *)
@@ -1794,28 +1941,15 @@ Qed.
 
 (* ---- C13 ---- *)
 
-Lemma big_enough_seq_none d : forall ks,
-  big_enough_seq d ks = Ok None -> Forall (fun k => big_enough_kind d k = None) ks.
-Proof.
-  induction ks as [|k t IH]; intros H; [constructor|]. cbn [big_enough_seq] in H.
-  destruct (address_type_of (d_config d) k) eqn:Et.
-  - destruct (negb (mm_ok _)); [discriminate|]. destruct (big_enough_kind d k) eqn:Ek; [discriminate|].
-    constructor; auto.
-  - constructor; [|auto]. unfold big_enough_kind. rewrite Et. reflexivity.
-Qed.
-
 Lemma accepted_inv fx fuel dev_name d :
   accepted fx fuel dev_name d ->
-  address_types_specified d = None /\ address_types_big_enough d = None /\ exists it, internal_type d = Ok it.
+  address_types_specified d = None /\ address_types_big_enough fuel d = Ok None /\ exists it, internal_type_at fuel d = Ok it.
 Proof.
   unfold accepted, addr_check. destruct (address_types_specified d); [discriminate|].
-  unfold address_types_big_enough_i64.
-  destruct (big_enough_seq d [KRegister; KCommand; KBuffer]) as [[e|]|k] eqn:Es; try discriminate.
+  destruct (address_types_big_enough fuel d) as [[e|]|k] eqn:Es; try discriminate.
   destruct (lower fx fuel dev_name (d_objects d)); [|discriminate].
-  destruct (negb (mm_ok _)); [discriminate|].
-  destruct (internal_type d) as [it|k] eqn:Ei; [|discriminate]. intros _.
-  split; [reflexivity|]. split; [|eauto].
-  apply big_enough_seq_none in Es. unfold address_types_big_enough. apply first_error_none. exact Es.
+  destruct (internal_type_at fuel d) as [it|k] eqn:Ei; [|discriminate]. intros _.
+  split; [reflexivity|]. split; [reflexivity|eauto].
 Qed.
 
 Lemma missing_type_not_accepted fx fuel dev_name d o k :
@@ -1828,59 +1962,64 @@ Proof.
 Qed.
 
 (* "an error stating the offending bound" *)
-Lemma big_enough_error d k e :
-  big_enough_kind d k = Some e ->
-  exists t, address_type_of (d_config d) k = Some t /\
-    let mn := fst (find_min_max_addresses (filter_kind k) (d_objects d)) in
-    let mx := snd (find_min_max_addresses (filter_kind k) (d_objects d)) in
-    (mn < integer_min t /\
-     e = mk_err "address_too_low" [show_akind k; show_Z mn; show_integer t; show_Z (integer_min t)]) \/
-    (integer_max t < mx /\
-     e = mk_err "address_too_high" [show_akind k; show_Z mx; show_integer t; show_Z (integer_max t)]).
+Lemma big_enough_error fuel d k e :
+  big_enough_kind fuel d k = Ok (Some e) ->
+  exists t mn mx, address_type_of (d_config d) k = Some t /\
+    find_min_max_addresses fuel (filter_kind k) (d_objects d) = Ok (mn, mx) /\
+    ((mn < integer_min t /\
+      e = mk_err "address_too_low" [show_akind k; show_Z mn; show_integer t; show_Z (integer_min t)]) \/
+     (integer_max t < mx /\
+      e = mk_err "address_too_high" [show_akind k; show_Z mx; show_integer t; show_Z (integer_max t)])).
 Proof.
   unfold big_enough_kind. destruct (address_type_of (d_config d) k) as [t|]; [|discriminate].
-  destruct (find_min_max_addresses (filter_kind k) (d_objects d)) as [mn mx]. cbn [fst snd].
-  intros H. exists t. split; [reflexivity|].
+  destruct (find_min_max_addresses fuel (filter_kind k) (d_objects d)) as [[mn mx]|f]; [|discriminate].
+  intros H. injection H as H. exists t, mn, mx. split; [reflexivity|]. split; [reflexivity|].
+  unfold range_error in H.
   destruct (integer_min t <=? mn) eqn:E1; cbn [negb] in H.
   - destruct (mx <=? integer_max t) eqn:E2; cbn [negb] in H; [discriminate|].
     right. apply Z.leb_gt in E2. split; [lia|]. injection H as <-. reflexivity.
   - left. apply Z.leb_gt in E1. split; [lia|]. injection H as <-. reflexivity.
 Qed.
 
-(* C13 for the class of the partial theorem, assembled *)
-Theorem c13_partial fx fuel dev_name d l :
-  simple_tree (d_objects d) = true -> accepted fx fuel dev_name d ->
-  instances fuel (d_objects d) = Ok l ->
-  forall i, In i l ->
-    fst (find_min_max_addresses (filter_kind (i_kind i)) (d_objects d)) <= i_addr i
-      <= snd (find_min_max_addresses (filter_kind (i_kind i)) (d_objects d)) /\
-    exists t it, address_type_of (d_config d) (i_kind i) = Some t /\ internal_type d = Ok it /\
-      in_range (integer_ity t) (i_addr i) = true /\
-      ((signed it = false \/ last_step_product_ok it (i_path i)) ->
-       gen_addr true it (integer_ity t) (i_path i) = Ok (i_addr i)).
+(* completeness of the comparison: a walk range that leaves the kind's address type is never accepted *)
+Lemma walk_range_unfit_not_accepted fx fuel dev_name d k t mn mx :
+  address_type_of (d_config d) k = Some t ->
+  find_min_max_addresses fuel (filter_kind k) (d_objects d) = Ok (mn, mx) ->
+  (mn < integer_min t \/ integer_max t < mx) -> ~ accepted fx fuel dev_name d.
 Proof.
-  intros Hs Hacc Hil i Hi. destruct (accepted_inv _ _ _ _ Hacc) as (Hsp & Hbe & it & Hit).
-  pose proof (simple_tree_untagged _ _ _ _ Hs Hil Hi) as Hu.
-  split; [eapply untagged_bounded; eauto|].
-  destruct (instance_type_specified d fuel l i Hil Hi Hsp) as (t & Ht).
-  exists t, it. pose proof (untagged_fits d fuel l i t Hil Hi Hu Hbe Ht) as Hfit.
-  repeat split; auto. intros Hside. eapply untagged_gen_addr; eauto.
+  intros Ht Hw Hout Hacc. destruct (accepted_inv _ _ _ _ Hacc) as (_ & Hbe & _).
+  destruct (big_enough_kind_none fuel d k t Ht (big_enough_all_kinds fuel d k Hbe)) as (mn' & mx' & Hw' & Hlo & Hhi).
+  rewrite Hw in Hw'. injection Hw' as <- <-. lia.
 Qed.
 
-(* the same for every untagged instance of an arbitrary tree *)
-Theorem c13_untagged fx fuel dev_name d l :
-  accepted fx fuel dev_name d -> instances fuel (d_objects d) = Ok l ->
-  forall i, In i l -> untagged i = true ->
-    exists t it, address_type_of (d_config d) (i_kind i) = Some t /\ internal_type d = Ok it /\
+(* C13 assembled: every instance of every accepted tree *)
+Theorem c13_accepted_all_fit fx fuel dev_name d fi l :
+  accepted fx fuel dev_name d -> instances fi (d_objects d) = Ok l ->
+  forall i, In i l ->
+    exists t, address_type_of (d_config d) (i_kind i) = Some t /\ in_range (integer_ity t) (i_addr i) = true.
+Proof.
+  intros Hacc Hil i Hi. destruct (accepted_inv _ _ _ _ Hacc) as (Hsp & Hbe & _).
+  destruct (instance_type_specified d fi l i Hil Hi Hsp) as (t & Ht).
+  exists t. split; [exact Ht|]. eapply all_fit; eauto.
+Qed.
+
+Theorem c13_accepted_no_overflow fx fuel dev_name d fi l :
+  accepted fx fuel dev_name d -> instances fi (d_objects d) = Ok l ->
+  forall i, In i l ->
+    exists t it, address_type_of (d_config d) (i_kind i) = Some t /\ internal_type_at fuel d = Ok it /\
       in_range (integer_ity t) (i_addr i) = true /\
-      ((signed it = false \/ last_step_product_ok it (i_path i)) ->
+      Forall (fun z => in_range it z = true) (checkpoints 0 (i_path i)) /\
+      ((signed it = false \/ steps_product_ok it (i_path i)) ->
        gen_addr true it (integer_ity t) (i_path i) = Ok (i_addr i)).
 Proof.
-  intros Hacc Hil i Hi Hu. destruct (accepted_inv _ _ _ _ Hacc) as (Hsp & Hbe & it & Hit).
-  destruct (instance_type_specified d fuel l i Hil Hi Hsp) as (t & Ht).
-  exists t, it. pose proof (untagged_fits d fuel l i t Hil Hi Hu Hbe Ht) as Hfit.
-  repeat split; auto. intros Hside. eapply untagged_gen_addr; eauto.
+  intros Hacc Hil i Hi. destruct (accepted_inv _ _ _ _ Hacc) as (Hsp & Hbe & it & Hit).
+  destruct (instance_type_specified d fi l i Hil Hi Hsp) as (t & Ht).
+  exists t, it. pose proof (all_fit fuel d fi l i t Hil Hi Hbe Ht) as Hfit.
+  split; [exact Ht|]. split; [exact Hit|]. split; [exact Hfit|].
+  split; [eapply internal_covers_checkpoints; eauto|].
+  intros Hside. eapply gen_addr_exact; eauto.
 Qed.
+
 
 (* ---- the hypothesis [root_name_fresh] is necessary: a block named like the device (D11b) ---- *)
 
